@@ -2,18 +2,29 @@ package rules
 
 // C19 — replication state lookup by time terminates with the first state at or after t.
 //
-// Anchors. Everything is resolved from exported API and roles:
+// Files: c19.go (registration, sensitivity suite, layout table, model), c19_scan.go and c19_cycles.go (M1, M2: loops and
+// neighbour scans, decided on the CFG), c19_interp.go (abstract evaluator), c19_eval.go (M3–M5: decision and
+// formatting functions evaluated over their finite abstract domain), c19_variants.go (behaviour-preserving variants).
+//
+// Anchors. Everything is resolved from exported API and roles, never from the name or the place of an
+// unexported function:
 //   - the four exported methods of replication.Datasource with signature
-//     (context.Context, time.Time) -> (K, *State, error), K a type with a Dir() method ("…StateAt");
-//   - the struct built by a composite literal inside them (today `stater`): its func field with a
-//     uint64 parameter is "the state fetch", the one without is "the current state", the integer
-//     field is the minimum sequence number;
-//   - the function they hand that struct to (today `searchTimestamp`) and everything statically
-//     reachable from the entry points inside the package (today findBound, findInRange, fetchState,
-//     fetchChangesetState, decode…State, decodeTime, NotFound, base…URL);
+//     (context.Context, time.Time) -> (K, *State, error), K a type with a Dir() method ("…StateAt"), and the
+//     package-level functions of the same name;
+//   - the search descriptor: the one struct type of the package with a field func(…, uint64) (*State, error)
+//     ("the state fetch"), a field func(…) (*State, error) ("the current state") and an integer field (the minimum
+//     sequence number), today `stater`;
+//   - the search: the outermost function(s) reachable from the lookups that take the descriptor (today
+//     `searchTimestamp`), and everything statically reachable from the lookups inside the package;
+//   - the binary-search loop: a `for` kept running by a comparison of the SeqNum of two state variables; its
+//     neighbour scans: `for` loops with a state fetch, nested in it or inside functions it calls;
 //   - exported Datasource methods classified by signature (state / data / current-state fetchers);
-//   - State.SeqNum, UnexpectedStatusCodeError.Code, NotFound, the Dir methods (all exported).
-// No unexported identifier is matched by name.
+//   - State.SeqNum, UnexpectedStatusCodeError.Code, NotFound, the Dir methods (all exported);
+//   - net/http request construction and (*http.Client).Do / Get as the boundary of the evaluation.
+//
+// Floors count things a refactoring cannot change: exported functions, table entries, the two scan directions
+// with their five facets; M1's floor (4) is the binary-search loop, the bound-finding loop and one scan with two
+// condition parts, i.e. what is left when both scans share one loop.
 
 import (
 	"encoding/json"
@@ -25,7 +36,6 @@ import (
 	"path/filepath"
 	"sort"
 	"strings"
-	"time"
 
 	"golang.org/x/tools/go/packages"
 
@@ -38,26 +48,28 @@ func init() {
 	register(&core.Property{
 		ID:    "C19",
 		Title: "Replication state lookup by time terminates with the first state at or after t",
-		Explanation: "Structural necessary conditions, decided on package replication for everything statically reachable from the four (*Datasource).…StateAt lookups: " +
-			"(M1) every conjunct of every `for` condition depends on a variable its own loop body assigns (a loop-invariant conjunct bounds nothing), range loops run over finite values; " +
-			"(M2) each neighbour scan over missing state files starts one step from the missing middle, probes the variable it steps, steps it once per iteration after the probe in the direction of its start, compares that same variable strictly with the bound it walks towards (lower bound when walking down, upper bound when walking up, roles taken from the binary-search loop condition), stops at the first state found, both directions exist, and when both scans find nothing the search returns the upper bound like its normal exit: so every probe lies strictly between the bounds and a scan costs at most one request per missing file; " +
-			"(M3) URLs follow the planet layout of tables/replication.json: path format, the three decimal digit groups computed from the sequence number (constants evaluated by the type checker), file suffix per exported fetcher, current-state file names and their selection by sequence number 0, Dir() values, the planet's timestamp forms are accepted by the first matching constant layout (escaped colons), NotFound is true only for status 404 and the fetchers put the response status into the error; " +
-			"(M4) the changeset state's off-by-one: current state reports sequence+1, a numbered state reports the number requested, the decoder stores the raw value, the correction dominates every success return; " +
-			"(M5) the four lookups and their package-level delegates have the same structure up to the sequence-number type, each descriptor calls the current/numbered fetchers of its own kind on its own receiver, and the minimum sequence number is a constant >= 1. " +
-			"NOT decided: the logarithmic request bound, which state is returned for which timestamp (boundary cases of the binary search, queries before the first state, the `return lower` when every state between the bounds is missing), monotonicity of server timestamps, HTTP transport behaviour, parsing of malformed state files.",
-		Assumptions: []string{"go/types, go/cfg (x/tools v0.29.0)", "tables/replication.json is the planet server's layout", "time.Parse of the checker's Go toolchain is the one the library is built with (used only to evaluate constant layouts against the table's sample timestamps; the library is not run)", "fmt.Sprintf %03d semantics"},
-		LevelText:   "Structural necessary conditions of termination and of the planet layout: loop conditions depend on what their bodies vary, neighbour scans are bounded by the variable they step, URL/time/status constants equal the external layout table, the changeset off-by-one correction is applied on both branches, the four lookups agree up to their kind. Which state is returned for which timestamp and the logarithmic bound are not decided.",
-		LevelNote:   "Trusts the Go type checker (constant evaluation, callee resolution), go/cfg dominance, the layout table, and time.Parse for evaluating constant layouts. Static call reachability inside package replication (function references, including inside closures).",
-		Technique:   "type-resolved loop-variance analysis (condition conjuncts vs. variables assigned in the loop body), role-derived scan model (probe/step/bound), constant tables compared with an external layout table, sibling structure normalisation",
-		DesignRef:   "DESIGN.md §5 C19, Appendix D",
+		Explanation: "Necessary conditions, decided on package replication for everything statically reachable from the four (*Datasource).…StateAt lookups. " +
+			"(M1) every atomic part of what keeps a `for` loop running (its condition and the negated guards of leading `if … { break/return }`) depends on a variable the loop body assigns (a loop-invariant part bounds nothing); range loops run over finite values. " +
+			"(M2) for the binary-search loop (kept running by lo.SeqNum… < hi.SeqNum) and each neighbour scan over missing state files (a `for` with one state fetch, nested in it or in a function it calls; the fetch is recognised through wrapper functions): the scanned variable starts one step from the probed middle, is the variable probed, is stepped once, after the probe, in the direction of its start on every way round the loop that found nothing; the probe is controlled inside the loop by a comparison that is `lo.SeqNum < v` (down) / `v < hi.SeqNum` (up) in integer normal form (an off-by-one in either direction is reported); once a state is found neither the same probe nor another scan is reachable (CFG walk with the nil tests decided); both directions exist; and when every probe of one iteration finds nothing the only way on is `return hi`, like every other success return reachable from the loop. So every probe lies strictly between the bounds, the neighbours next to both bounds are probed, and a scan costs at most one request per missing file. " +
+			"(M3) evaluated over kind × sequence number × HTTP status × error: every exported state/data/current-state fetcher requests, as its first request, exactly the URL tables/replication.json gives (path format, three zero-padded decimal digit groups, suffix per file kind, current-state file for sequence number 0, base URL of its own datasource); Dir() values; the function the state decoders parse timestamps with returns the right instant for the planet's timestamp forms (escaped colons); NotFound is true exactly for a status error with code 404; with a 404 response every state/data fetcher returns an error satisfying NotFound, with 500/403 an error that does not, with 200 no status error. " +
+			"(M4) changeset state off-by-one, evaluated: the current state reports the parsed `sequence:` value +1 (and returns that number), a numbered state reports the number requested. " +
+			"(M5) evaluated: each lookup and its package-level delegate calls the search exactly once with the caller's ctx and timestamp, returns the state found together with K(state.SeqNum) of its own kind, propagates the error; the descriptor's functions request the current/numbered state files of the lookup's own kind on the lookup's own datasource (the default datasource for the delegates); the minimum sequence number is a constant >= 1. " +
+			"The verdicts do not depend on how the code is cut into helpers, on if/switch/early-return form, on local names, named constants or statement order. " +
+			"NOT decided: the logarithmic request bound, which state is returned for which timestamp (boundary cases of the binary search, queries before the first state), the bound-finding loop beyond M1, monotonicity of server timestamps, HTTP transport behaviour, parsing of malformed state files, the decoding of interval state files (evaluation stops at their line loop), sequence numbers of 10^9 and more.",
+		Assumptions: []string{"go/types, go/cfg (x/tools v0.29.0)", "tables/replication.json is the planet server's layout", "the abstract evaluator of rules/c19_interp.go implements the semantics of the Go subset it accepts (anything outside it is reported as undecided); fmt.Sprintf, strconv formatting and time.Parse of the checker's Go toolchain are the ones the library is built with (they are applied to the library's constants and the table's samples; the library itself is neither compiled nor run)", "a function of the package that makes exactly one state fetch outside any loop with an unmodified parameter as sequence number is a fetch of that argument (its error handling is not part of M2)"},
+		LevelText:   "Necessary conditions of termination and of the planet layout. Structural (CFG, guard facts, integer normal form of comparisons): loop conditions depend on what their bodies vary; neighbour scans start next to the middle, step the probed variable once after the probe, are bounded strictly by the bound they walk towards, stop at the first state found, and an iteration that finds nothing returns the upper bound. By exhaustive evaluation over a finite abstract domain: URLs, Dir values, timestamp layouts, the 404 decision and status propagation equal the external layout table; the changeset off-by-one correction; each lookup serves its own kind on its own datasource. Which state is returned for which timestamp and the logarithmic bound are not decided.",
+		LevelNote:   "Trusts the Go type checker (constant evaluation, callee resolution), go/cfg, the layout table, the abstract evaluator (c19_interp.go) and fmt/strconv/time.Parse for evaluating constants. Static call reachability inside package replication (function references, including inside closures). URL digit groups are checked on 10 sample numbers below 10^9, not symbolically.",
+		Technique:   "loop-variance analysis over guard facts; role-derived scan model decided on the CFG (three-valued evaluation of branch conditions under `state == nil` valuations, linear normal form of comparisons, parameters read as caller arguments); abstract evaluation (path-exploring interpreter over go/types-resolved syntax, opaque values with ±constant identity) of formatting and decision functions against an external layout table",
+		DesignRef:   "DESIGN.md §5 C19, Appendix D; ROBUSTNESS.md",
 		Rules: []*core.Rule{
-			{ID: "M1", Floor: 8, Doc: "every conjunct of every loop condition reachable from the …StateAt lookups depends on a variable the loop body assigns", Run: c19M1},
-			{ID: "M2", Floor: 12, Doc: "neighbour scans over missing state files probe the stepped sequence number and compare it strictly with the bound they walk towards", Run: c19M2},
-			{ID: "M3", Floor: 37, Doc: "planet replication layout: path format and digit groups, file suffixes, current-state names, Dir() values, timestamp layouts, 404 = missing", Run: c19M3},
-			{ID: "M4", Floor: 3, Doc: "changeset state off-by-one: current state reports sequence+1, numbered state reports the requested number, decoder stores the raw value", Run: c19M4},
-			{ID: "M5", Floor: 20, Doc: "the four …StateAt lookups and their package-level delegates agree up to the sequence-number type they serve", Run: c19M5},
+			{ID: "M1", Floor: 4, Doc: "every atomic part of what keeps a loop reachable from the …StateAt lookups running depends on a variable the loop body assigns", Run: c19M1},
+			{ID: "M2", Floor: 12, Doc: "neighbour scans over missing state files: start next to the middle, probe the stepped variable, one step after the probe, strict bound in normal form, stop at the first state, both directions, nothing found = upper bound", Run: c19M2},
+			{ID: "M3", Floor: 28, Doc: "planet replication layout, by evaluation: URL requested per exported fetcher (12), Dir() values (4), timestamp forms (3), NotFound decision (1), status propagation per state/data fetcher (8)", Run: c19M3},
+			{ID: "M4", Floor: 2, Doc: "changeset state off-by-one, by evaluation: current state reports the parsed sequence +1, numbered state reports the requested number", Run: c19M4},
+			{ID: "M5", Floor: 16, Doc: "the four …StateAt lookups and their package-level delegates, by evaluation: one search with the caller's arguments, own kind and own datasource, minimum >= 1, result returned with its own number", Run: c19M5},
 		},
 		Mutants: c19Mutants,
+		Benign:  c19Benign,
 	})
 }
 
@@ -76,7 +88,7 @@ var c19Mutants = []core.Mutant{
 	// M2
 	{Name: "m2-probe-not-stepped", File: "replication/search.go", Find: "split, err = s.State(ctx, sID)", Replace: "split, err = s.State(ctx, splitID)", ExpectRule: "M2", ExpectConstruct: "scan-down@findInRange probe"},
 	{Name: "m2-step-wrong-way", File: "replication/search.go", Find: "\t\t\t\tsID--\n", Replace: "\t\t\t\tsID++\n", ExpectRule: "M2", ExpectConstruct: "scan-down@findInRange step"},
-	{Name: "m2-step-before-probe", File: "replication/search.go", Find: "\t\t\t\tsplit, err = s.State(ctx, sID)\n\t\t\t\tif err != nil && !NotFound(err) {\n\t\t\t\t\treturn nil, err\n\t\t\t\t}\n\n\t\t\t\tsID++\n", Replace: "\t\t\t\tsID++\n\t\t\t\tsplit, err = s.State(ctx, sID)\n\t\t\t\tif err != nil && !NotFound(err) {\n\t\t\t\t\treturn nil, err\n\t\t\t\t}\n", ExpectRule: "M2", ExpectConstruct: "scan-up@findInRange step"},
+	{Name: "m2-step-before-probe", File: "replication/search.go", Find: "\t\t\t\tsplit, err = s.State(ctx, sID)\n\t\t\t\tif err != nil && !NotFound(err) {\n\t\t\t\t\treturn nil, err\n\t\t\t\t}\n\n\t\t\t\tsID++\n", Replace: "\t\t\t\tsID++\n\t\t\t\tsplit, err = s.State(ctx, sID)\n\t\t\t\tif err != nil && !NotFound(err) {\n\t\t\t\t\treturn nil, err\n\t\t\t\t}\n", ExpectRule: "M2", ExpectConstruct: "scan-up@findInRange start"},
 	{Name: "m2-both-scans-down", File: "replication/search.go", Find: "sID := splitID + 1", Replace: "sID := splitID - 1", ExpectRule: "M2", ExpectConstruct: "both directions"},
 	{Name: "m2-up-scan-no-stop-pre", File: "replication/search.go", Find: "for split == nil && splitID < upper.SeqNum {", Replace: "for splitID < upper.SeqNum {", ExpectRule: "M2", ExpectConstruct: "scan-up@findInRange stop"},
 	{Name: "m2-up-scan-no-stop-post", File: "replication/search.go", Find: "for split == nil && sID < upper.SeqNum {", Replace: "for sID < upper.SeqNum {", ExpectRule: "M2", ExpectConstruct: "scan-up@findInRange stop"},
@@ -86,35 +98,50 @@ var c19Mutants = []core.Mutant{
 	{Name: "m2-up-bound-wrong-bound-post", File: "replication/search.go", Find: "sID < upper.SeqNum {", Replace: "sID > lower.SeqNum {", ExpectRule: "M2", ExpectConstruct: "scan-up@findInRange bound"},
 	{Name: "m2-up-bound-invariant-post", File: "replication/search.go", Find: "sID < upper.SeqNum {", Replace: "splitID < upper.SeqNum {", ExpectRule: "M2", ExpectConstruct: "scan-up@findInRange bound"},
 	{Name: "m2-exhausted-returns-nil-pre", File: "replication/search.go", Find: "// still nothing\n\t\t\treturn lower, nil", Replace: "// still nothing\n\t\t\treturn split, nil", ExpectRule: "M2", ExpectConstruct: "scans@findInRange exhausted"},
-	{Name: "m2-exhausted-returns-lower-post", File: "replication/search.go", Find: "// still nothing\n\t\t\treturn upper, nil", Replace: "// still nothing\n\t\t\treturn lower, nil", ExpectRule: "M2", ExpectConstruct: "scans@findInRange exhausted"},
+	{Name: "m2-exhausted-returns-lower-post", File: "replication/search.go", Find: "// the first state at or after the timestamp.\n\t\t\treturn upper, nil", Replace: "// the first state at or after the timestamp.\n\t\t\treturn lower, nil", ExpectRule: "M2", ExpectConstruct: "scans@findInRange exhausted"},
 	{Name: "m2-final-returns-lower", File: "replication/search.go", Find: "we want to return the upper.\n\treturn upper, nil", Replace: "we want to return the upper.\n\treturn lower, nil", ExpectRule: "M2", ExpectConstruct: "scans@findInRange exhausted"},
+	{Name: "m2-down-bound-one-short", File: "replication/search.go", Find: "lower.SeqNum < sID {", Replace: "lower.SeqNum+1 < sID {", ExpectRule: "M2", ExpectConstruct: "scan-down@findInRange bound"},
+	{Name: "m2-up-bound-one-short", File: "replication/search.go", Find: "sID < upper.SeqNum {", Replace: "sID+1 < upper.SeqNum {", ExpectRule: "M2", ExpectConstruct: "scan-up@findInRange bound"},
+	{Name: "m2-exhausted-no-return", File: "replication/search.go", Find: "\t\tif split == nil {\n\t\t\t// nothing between lower and upper, so upper is\n\t\t\t// the first state at or after the timestamp.\n\t\t\treturn upper, nil\n\t\t}\n", Replace: "", ExpectRule: "M2", ExpectConstruct: "scans@findInRange exhausted"},
+	{Name: "m2-exhausted-continues", File: "replication/search.go", Find: "// the first state at or after the timestamp.\n\t\t\treturn upper, nil", Replace: "// the first state at or after the timestamp.\n\t\t\tcontinue", ExpectRule: "M2", ExpectConstruct: "scans@findInRange exhausted"},
+	{Name: "m2-step-only-when-found", File: "replication/search.go", Find: "\t\t\t\tsID--\n", Replace: "\t\t\t\tif split != nil {\n\t\t\t\t\tsID--\n\t\t\t\t}\n", ExpectRule: "M2", ExpectConstruct: "scan-down@findInRange step"},
+	{Name: "m2-down-bound-stale-copy", File: "replication/search.go", Find: "\tfor lower.SeqNum+1 < upper.SeqNum {\n\t\t// could do better here\n\t\tsplitID := (lower.SeqNum + upper.SeqNum) / 2\n\n\t\tsplit, err := s.State(ctx, splitID)\n\t\tif err != nil && !NotFound(err) {\n\t\t\treturn nil, err\n\t\t}\n\n\t\tif split == nil {\n\t\t\t// file missing, search the next towards lower\n\t\t\tsID := splitID - 1\n\n\t\t\tfor split == nil && lower.SeqNum < sID {", Replace: "\tlo := lower.SeqNum\n\tfor lower.SeqNum+1 < upper.SeqNum {\n\t\t// could do better here\n\t\tsplitID := (lower.SeqNum + upper.SeqNum) / 2\n\n\t\tsplit, err := s.State(ctx, splitID)\n\t\tif err != nil && !NotFound(err) {\n\t\t\treturn nil, err\n\t\t}\n\n\t\tif split == nil {\n\t\t\t// file missing, search the next towards lower\n\t\t\tsID := splitID - 1\n\n\t\t\tfor split == nil && lo < sID {", ExpectRule: "M2", ExpectConstruct: "scan-down@findInRange bound"},
+	{Name: "m2-prestep-bound-not-shifted", File: "replication/search.go", Find: "\t\t\tsID := splitID - 1\n\n\t\t\tfor split == nil && lower.SeqNum < sID {\n\t\t\t\tsplit, err = s.State(ctx, sID)\n\t\t\t\tif err != nil && !NotFound(err) {\n\t\t\t\t\treturn nil, err\n\t\t\t\t}\n\n\t\t\t\tsID--\n\t\t\t}\n", Replace: "\t\t\tsID := splitID\n\n\t\t\tfor split == nil && lower.SeqNum < sID {\n\t\t\t\tsID--\n\t\t\t\tsplit, err = s.State(ctx, sID)\n\t\t\t\tif err != nil && !NotFound(err) {\n\t\t\t\t\treturn nil, err\n\t\t\t\t}\n\t\t\t}\n", ExpectRule: "M2", ExpectConstruct: "scan-down@findInRange bound"},
+	{Name: "m2-scan-overwrites-found-state", File: "replication/search.go", Find: "\t\t\tsID := splitID - 1\n\n\t\t\tfor split == nil && lower.SeqNum < sID {\n\t\t\t\tsplit, err = s.State(ctx, sID)\n\t\t\t\tif err != nil && !NotFound(err) {\n\t\t\t\t\treturn nil, err\n\t\t\t\t}\n\n\t\t\t\tsID--\n\t\t\t}\n", Replace: "\t\t\tsID := splitID - 1\n\n\t\t\tfor lower.SeqNum < sID {\n\t\t\t\tst, err := s.State(ctx, sID)\n\t\t\t\tif err != nil && !NotFound(err) {\n\t\t\t\t\treturn nil, err\n\t\t\t\t}\n\n\t\t\t\tsplit = st\n\t\t\t\tsID--\n\t\t\t}\n", ExpectRule: "M2", ExpectConstruct: "scan-down@findInRange stop"},
 	// M3
-	{Name: "m3-format-two-digit-leaf", File: "replication/changesets.go", Find: "%03d/%03d/%03d", Replace: "%03d/%03d/%02d", ExpectRule: "M3", ExpectConstruct: "seqpath@(*Datasource).baseChangesetURL format"},
-	{Name: "m3-level2-modulus", File: "replication/interval.go", Find: "(n%1000000)/1000", Replace: "(n%100000)/1000", ExpectRule: "M3", ExpectConstruct: "seqpath@(*Datasource).baseSeqURL level 2"},
-	{Name: "m3-level1-divisor", File: "replication/changesets.go", Find: "n/1000000,", Replace: "n/100000,", ExpectRule: "M3", ExpectConstruct: "seqpath@(*Datasource).baseChangesetURL level 1"},
-	{Name: "m3-data-suffix", File: "replication/interval.go", Find: "\".osc.gz\"", Replace: "\".osm.gz\"", ExpectRule: "M3", ExpectConstruct: "file@(*Datasource).Minute"},
-	{Name: "m3-state-suffix", File: "replication/changesets.go", Find: "+ \".state.txt\"", Replace: "+ \".state.yaml\"", ExpectRule: "M3", ExpectConstruct: "file@(*Datasource).ChangesetState"},
-	{Name: "m3-current-name", File: "replication/changesets.go", Find: "/state.yaml", Replace: "/state.txt", ExpectRule: "M3", ExpectConstruct: "current-url@(*Datasource).fetchChangesetState"},
-	{Name: "m3-select-swapped", File: "replication/interval.go", Find: "if n.Uint64() != 0 {", Replace: "if n.Uint64() == 0 {", ExpectRule: "M3", ExpectConstruct: "select@(*Datasource).fetchState"},
-	{Name: "m3-current-asks-one", File: "replication/interval.go", Find: "ds.HourState(ctx, 0)", Replace: "ds.HourState(ctx, 1)", ExpectRule: "M3", ExpectConstruct: "current@(*Datasource).CurrentHourState"},
+	{Name: "m3-format-two-digit-leaf", File: "replication/changesets.go", Find: "%03d/%03d/%03d", Replace: "%03d/%03d/%02d", ExpectRule: "M3", ExpectConstruct: "url@(*Datasource).ChangesetState [state]"},
+	{Name: "m3-level2-modulus", File: "replication/interval.go", Find: "(n%1000000)/1000", Replace: "(n%100000)/1000", ExpectRule: "M3", ExpectConstruct: "url@(*Datasource).MinuteState [state]"},
+	{Name: "m3-level1-divisor", File: "replication/changesets.go", Find: "n/1000000,", Replace: "n/100000,", ExpectRule: "M3", ExpectConstruct: "url@(*Datasource).Changesets [data]"},
+	{Name: "m3-data-suffix", File: "replication/interval.go", Find: "\".osc.gz\"", Replace: "\".osm.gz\"", ExpectRule: "M3", ExpectConstruct: "url@(*Datasource).Minute [data]"},
+	{Name: "m3-state-suffix", File: "replication/changesets.go", Find: "+ \".state.txt\"", Replace: "+ \".state.yaml\"", ExpectRule: "M3", ExpectConstruct: "url@(*Datasource).ChangesetState [state]"},
+	{Name: "m3-current-name", File: "replication/changesets.go", Find: "/state.yaml", Replace: "/state.txt", ExpectRule: "M3", ExpectConstruct: "url@(*Datasource).CurrentChangesetState [current]"},
+	{Name: "m3-select-swapped", File: "replication/interval.go", Find: "if n.Uint64() != 0 {", Replace: "if n.Uint64() == 0 {", ExpectRule: "M3", ExpectConstruct: "url@(*Datasource).DayState [state]"},
+	{Name: "m3-current-asks-one", File: "replication/interval.go", Find: "ds.HourState(ctx, 0)", Replace: "ds.HourState(ctx, 1)", ExpectRule: "M3", ExpectConstruct: "url@(*Datasource).CurrentHourState [current]"},
 	{Name: "m3-dir-hour", File: "replication/interval.go", Find: "return \"hour\"", Replace: "return \"hourly\"", ExpectRule: "M3", ExpectConstruct: "dir@HourSeqNum"},
 	{Name: "m3-time-unescaped", File: "replication/datasource.go", Find: "\"2006-01-02T15\\\\:04\\\\:05Z\"", Replace: "\"2006-01-02T15:04:05Z\"", ExpectRule: "M3", ExpectConstruct: "time interval"},
-	{Name: "m3-notfound-403", File: "replication/datasource.go", Find: "e.Code == http.StatusNotFound", Replace: "e.Code == http.StatusForbidden", ExpectRule: "M3", ExpectConstruct: "notfound return"},
-	{Name: "m3-notfound-default-true", File: "replication/datasource.go", Find: "return e.Code == http.StatusNotFound\n\t}\n\n\treturn false", Replace: "return e.Code == http.StatusNotFound\n\t}\n\n\treturn true", ExpectRule: "M3", ExpectConstruct: "notfound return"},
-	{Name: "m3-status-lost", File: "replication/changesets.go", Find: "Code: resp.StatusCode,", Replace: "Code: 500,", ExpectRule: "M3", ExpectConstruct: "status@(*Datasource).fetchChangesetState"},
+	{Name: "m3-notfound-403", File: "replication/datasource.go", Find: "e.Code == http.StatusNotFound", Replace: "e.Code == http.StatusForbidden", ExpectRule: "M3", ExpectConstruct: "notfound decision"},
+	{Name: "m3-notfound-default-true", File: "replication/datasource.go", Find: "return e.Code == http.StatusNotFound\n\t}\n\n\treturn false", Replace: "return e.Code == http.StatusNotFound\n\t}\n\n\treturn true", ExpectRule: "M3", ExpectConstruct: "notfound decision"},
+	{Name: "m3-status-lost", File: "replication/changesets.go", Find: "Code: resp.StatusCode,", Replace: "Code: 500,", ExpectRule: "M3", ExpectConstruct: "status@(*Datasource).ChangesetState"},
+	{Name: "m3-status-test-inverted", File: "replication/interval.go", Find: "if resp.StatusCode != 200 {", Replace: "if resp.StatusCode == 200 {", ExpectRule: "M3", ExpectConstruct: "status@(*Datasource).MinuteState"},
+	{Name: "m3-status-404-only", File: "replication/changesets.go", Find: "if resp.StatusCode != 200 {", Replace: "if resp.StatusCode == 404 {", ExpectRule: "M3", ExpectConstruct: "status@(*Datasource).ChangesetState"},
+	{Name: "m3-notfound-nil-true", File: "replication/datasource.go", Find: "if err == nil {\n\t\treturn false", Replace: "if err == nil {\n\t\treturn true", ExpectRule: "M3", ExpectConstruct: "notfound decision"},
+	{Name: "m3-time-first-layout-wins-regardless", File: "replication/datasource.go", Find: "\t\tif err == nil {\n\t\t\treturn t, nil\n\t\t}\n", Replace: "\t\treturn t, err\n", ExpectRule: "M3", ExpectConstruct: "time "},
+	{Name: "m3-dir-swapped-in-url", File: "replication/interval.go", Find: "\t\tds.baseURL(),\n\t\tsn.Dir(),\n", Replace: "\t\tsn.Dir(),\n\t\tds.baseURL(),\n", ExpectRule: "M3", ExpectConstruct: "url@(*Datasource).Hour [data]"},
 	// M4
-	{Name: "m4-current-not-incremented", File: "replication/changesets.go", Find: "s.SeqNum++", Replace: "s.SeqNum += 0", ExpectRule: "M4", ExpectConstruct: "fetchChangesetState current"},
-	{Name: "m4-numbered-keeps-file-value", File: "replication/changesets.go", Find: "s.SeqNum = uint64(n)", Replace: "s.SeqNum = s.SeqNum + 0", ExpectRule: "M4", ExpectConstruct: "fetchChangesetState numbered"},
-	{Name: "m4-correction-removed", File: "replication/changesets.go", Find: "\tif n == 0 {\n\t\ts.SeqNum++\n\t} else {\n\t\ts.SeqNum = uint64(n)\n\t}\n", Replace: "", ExpectRule: "M4", ExpectConstruct: "fetchChangesetState current"},
-	{Name: "m4-branches-swapped", File: "replication/changesets.go", Find: "\tif n == 0 {\n\t\ts.SeqNum++", Replace: "\tif n != 0 {\n\t\ts.SeqNum++", ExpectRule: "M4", ExpectConstruct: "fetchChangesetState numbered"},
-	{Name: "m4-decoder-adjusts", File: "replication/changesets.go", Find: "SeqNum:    n,", Replace: "SeqNum:    n + 1,", ExpectRule: "M4", ExpectConstruct: "raw@decodeChangesetState"},
+	{Name: "m4-current-not-incremented", File: "replication/changesets.go", Find: "s.SeqNum++", Replace: "s.SeqNum += 0", ExpectRule: "M4", ExpectConstruct: "CurrentChangesetState [current]"},
+	{Name: "m4-numbered-keeps-file-value", File: "replication/changesets.go", Find: "s.SeqNum = uint64(n)", Replace: "s.SeqNum = s.SeqNum + 0", ExpectRule: "M4", ExpectConstruct: "ChangesetState [numbered]"},
+	{Name: "m4-correction-removed", File: "replication/changesets.go", Find: "\tif n == 0 {\n\t\ts.SeqNum++\n\t} else {\n\t\ts.SeqNum = uint64(n)\n\t}\n", Replace: "", ExpectRule: "M4", ExpectConstruct: "CurrentChangesetState [current]"},
+	{Name: "m4-branches-swapped", File: "replication/changesets.go", Find: "\tif n == 0 {\n\t\ts.SeqNum++", Replace: "\tif n != 0 {\n\t\ts.SeqNum++", ExpectRule: "M4", ExpectConstruct: "ChangesetState [numbered]"},
+	{Name: "m4-decoder-adjusts", File: "replication/changesets.go", Find: "SeqNum:    n,", Replace: "SeqNum:    n + 1,", ExpectRule: "M4", ExpectConstruct: "CurrentChangesetState [current]"},
 	// M5
 	{Name: "m5-hour-lookup-reads-minute-states", File: "replication/search.go", Find: "return ds.HourState(ctx, HourSeqNum(n))", Replace: "return ds.MinuteState(ctx, MinuteSeqNum(n))", ExpectRule: "M5", ExpectConstruct: "kind@(*Datasource).HourStateAt"},
 	{Name: "m5-day-lookup-current-hour", File: "replication/search.go", Find: "_, s, err := ds.CurrentDayState(ctx)", Replace: "_, s, err := ds.CurrentHourState(ctx)", ExpectRule: "M5", ExpectConstruct: "kind@(*Datasource).DayStateAt"},
 	{Name: "m5-delegate-ignores-timestamp", File: "replication/search.go", Find: "return DefaultDatasource.DayStateAt(ctx, timestamp)", Replace: "return DefaultDatasource.DayStateAt(ctx, time.Now())", ExpectRule: "M5", ExpectConstruct: "delegate@DayStateAt"},
 	{Name: "m5-min-zero", File: "replication/search.go", Find: "Min: minHour,", Replace: "Min: 0,", ExpectRule: "M5", ExpectConstruct: "min@(*Datasource).HourStateAt"},
-	{Name: "m5-changeset-lookup-shifted", File: "replication/search.go", Find: "state, err := searchTimestamp(ctx, s, timestamp)", Nth: 4, Replace: "state, err := searchTimestamp(ctx, s, timestamp.Add(time.Hour))", ExpectRule: "M5", ExpectConstruct: "shape@(*Datasource).ChangesetStateAt"},
+	{Name: "m5-changeset-lookup-shifted", File: "replication/search.go", Find: "state, err := searchTimestamp(ctx, s, timestamp)", Nth: 4, Replace: "state, err := searchTimestamp(ctx, s, timestamp.Add(time.Hour))", ExpectRule: "M5", ExpectConstruct: "lookup@(*Datasource).ChangesetStateAt"},
 	{Name: "m5-fetch-ignores-number", File: "replication/search.go", Find: "return ds.DayState(ctx, DaySeqNum(n))", Replace: "return ds.DayState(ctx, DaySeqNum(minDay+n-n))", ExpectRule: "M5", ExpectConstruct: "kind@(*Datasource).DayStateAt"},
+	{Name: "m5-lookup-on-default-datasource", File: "replication/search.go", Find: "return ds.HourState(ctx, HourSeqNum(n))", Replace: "return DefaultDatasource.HourState(ctx, HourSeqNum(n))", ExpectRule: "M5", ExpectConstruct: "kind@(*Datasource).HourStateAt"},
+	{Name: "m5-returns-requested-kind-of-other-state", File: "replication/search.go", Find: "return DaySeqNum(state.SeqNum), state, nil", Replace: "return DaySeqNum(state.SeqNum + 1), state, nil", ExpectRule: "M5", ExpectConstruct: "lookup@(*Datasource).DayStateAt"},
 }
 
 // ---------------------------------------------------------------- table
@@ -224,22 +251,31 @@ type c19DSMethod struct {
 }
 
 type c19Model struct {
-	pk        *packages.Package
-	info      *types.Info
-	funcs     map[*types.Func]*FuncInfo
-	kinds     map[string]*types.Named // named types of the package with a Dir() string method
-	stateT    *types.Named            // replication.State
-	seqField  *types.Var              // State.SeqNum
-	methods   []*c19DSMethod
-	entries   []*c19DSMethod // role stateat, ordered by name
-	stater    *types.Named
-	fetchFld  *types.Var
-	fetchArg  int // index of the uint64 parameter of the fetch field
-	curFld    *types.Var
-	minFld    *types.Var
-	searchFn  *types.Func
-	reach     map[*types.Func]*FuncInfo // reachable from the entries
-	reachList []*FuncInfo               // same, ordered by position
+	pk              *packages.Package
+	info            *types.Info
+	fset            *token.FileSet
+	funcs           map[*types.Func]*FuncInfo
+	kinds           map[string]*types.Named // named types of the package with a Dir() string method
+	stateT          *types.Named            // replication.State
+	seqField        *types.Var              // State.SeqNum
+	dsT             *types.Named            // replication.Datasource
+	errT            *types.Named            // replication.UnexpectedStatusCodeError
+	codeFld         *types.Var              // its Code field
+	notFound        *FuncInfo               // replication.NotFound
+	timeT           types.Type              // time.Time
+	methods         []*c19DSMethod
+	entries         []*c19DSMethod // role stateat, ordered by position
+	stater          *types.Named
+	fetchFld        *types.Var
+	fetchArg        int // index of the uint64 parameter of the fetch field
+	curFld          *types.Var
+	minFld          *types.Var
+	searchFns       map[*types.Func]bool       // outermost functions taking the descriptor
+	reach           map[*types.Func]*FuncInfo  // reachable from the entries
+	reachList       []*FuncInfo                // same, ordered by position
+	graphs          map[*FuncInfo]*c19Graph    // CFGs, built on demand
+	fetchWrap       map[*FuncInfo]c19FetchWrap // functions that wrap one state fetch
+	assignedGlobals map[types.Object]bool      // package-level variables some function assigns
 }
 
 func c19IsCtx(t types.Type) bool   { return namedPath(t) == "context.Context" }
@@ -292,9 +328,15 @@ func c19BuildModel(r *core.R) *c19Model {
 		r.Anchor("package " + c19Pkg)
 		return nil
 	}
-	m := &c19Model{pk: pk, info: pk.TypesInfo, funcs: map[*types.Func]*FuncInfo{}, kinds: map[string]*types.Named{}}
+	m := &c19Model{pk: pk, info: pk.TypesInfo, fset: r.P.Fset, funcs: map[*types.Func]*FuncInfo{}, kinds: map[string]*types.Named{},
+		searchFns: map[*types.Func]bool{}, graphs: map[*FuncInfo]*c19Graph{}, fetchWrap: map[*FuncInfo]c19FetchWrap{}, assignedGlobals: map[types.Object]bool{}}
 	for _, fi := range allFuncs(pk) {
 		m.funcs[fi.Obj] = fi
+		for o := range c19AssignedIn(m.info, fi.Decl.Body) {
+			if v, ok := o.(*types.Var); ok && v.Parent() == pk.Types.Scope() {
+				m.assignedGlobals[o] = true
+			}
+		}
 	}
 	var st *types.Struct
 	m.stateT, st = structType(pk, "State")
@@ -309,6 +351,36 @@ func c19BuildModel(r *core.R) *c19Model {
 	}
 	if m.seqField == nil {
 		r.Anchor("replication.State.SeqNum")
+		return nil
+	}
+	m.dsT, _ = structType(pk, "Datasource")
+	if m.dsT == nil {
+		r.Anchor("replication.Datasource")
+		return nil
+	}
+	// NotFound and the status error (exported API); their absence is reported by the rules that need them
+	var errSt *types.Struct
+	m.errT, errSt = structType(pk, "UnexpectedStatusCodeError")
+	if errSt != nil {
+		for i := 0; i < errSt.NumFields(); i++ {
+			if errSt.Field(i).Name() == "Code" {
+				m.codeFld = errSt.Field(i)
+			}
+		}
+	}
+	if nf := findFunc(pk, "NotFound"); nf != nil {
+		sig := nf.Obj.Type().(*types.Signature)
+		if sig.Params().Len() == 1 && sig.Results().Len() == 1 && c19IsError(sig.Params().At(0).Type()) {
+			m.notFound = nf
+		}
+	}
+	if tp := pk.Imports["time"]; tp != nil && tp.Types != nil {
+		if o := tp.Types.Scope().Lookup("Time"); o != nil {
+			m.timeT = o.Type()
+		}
+	}
+	if m.timeT == nil {
+		r.Anchor("time.Time as imported by package replication")
 		return nil
 	}
 	// kinds: named types with a `Dir() string` method
@@ -371,2038 +443,92 @@ func c19BuildModel(r *core.R) *c19Model {
 		r.Anchor("exported (*Datasource) methods (context.Context, time.Time) -> (K, *State, error)")
 		return nil
 	}
-	// the search-descriptor struct built inside the entries, its fields, the search function
-	for _, e := range m.entries {
-		var lit *ast.CompositeLit
-		ast.Inspect(e.fi.Decl.Body, func(n ast.Node) bool {
-			if cl, ok := n.(*ast.CompositeLit); ok && lit == nil {
-				if nt, ok := m.info.TypeOf(cl).(*types.Named); ok && nt.Obj().Pkg() == pk.Types {
-					if _, ok := nt.Underlying().(*types.Struct); ok {
-						lit = cl
-					}
-				}
-			}
-			return true
-		})
-		if lit == nil {
-			continue
-		}
-		nt := m.info.TypeOf(lit).(*types.Named)
-		if m.stater == nil {
-			m.stater = nt
-		}
-	}
-	if m.stater == nil {
-		r.Anchor("search descriptor struct literal inside the …StateAt methods")
-		return nil
-	}
-	sst := m.stater.Underlying().(*types.Struct)
-	for i := 0; i < sst.NumFields(); i++ {
-		f := sst.Field(i)
-		switch ft := f.Type().Underlying().(type) {
-		case *types.Signature:
-			arg := -1
-			for k := 0; k < ft.Params().Len(); k++ {
-				if c19IsUint64(ft.Params().At(k).Type()) {
-					arg = k
-				}
-			}
-			if arg >= 0 && m.fetchFld == nil {
-				m.fetchFld, m.fetchArg = f, arg
-			} else if arg < 0 && m.curFld == nil {
-				m.curFld = f
-			}
-		case *types.Basic:
-			if ft.Info()&types.IsInteger != 0 && m.minFld == nil {
-				m.minFld = f
-			}
-		}
-	}
-	if m.fetchFld == nil || m.curFld == nil || m.minFld == nil {
-		r.Anchor("fields of " + m.stater.Obj().Name() + " (func with uint64 parameter, func without, integer minimum)")
-		return nil
-	}
-	// search function: the package function called with a value of type *stater
-	for _, e := range m.entries {
-		ast.Inspect(e.fi.Decl.Body, func(n ast.Node) bool {
-			call, ok := n.(*ast.CallExpr)
-			if !ok {
-				return true
-			}
-			fn := callee(m.info, call)
-			if fn == nil || m.funcs[fn] == nil {
-				return true
-			}
-			for _, a := range call.Args {
-				if namedPath(m.info.TypeOf(a)) == namedPath(m.stater) && m.searchFn == nil {
-					m.searchFn = fn
-				}
-			}
-			return true
-		})
-	}
-	if m.searchFn == nil {
-		r.Anchor("search function receiving the " + m.stater.Obj().Name() + " built by the …StateAt methods")
-		return nil
-	}
 	var roots []*types.Func
 	for _, e := range m.entries {
 		roots = append(roots, e.fi.Obj)
 	}
 	m.reach = c19Reach(pk, m.funcs, roots...)
 	m.reachList = c19SortedFuncs(m.reach)
+	// the search descriptor, by role: the struct type of the package with a function field
+	// (…, uint64, …) -> (*State, error) ("fetch state number n"), a function field without integer
+	// parameter -> (*State, error) ("current state") and an integer field ("minimum"), mentioned by
+	// the code reachable from the lookups.
+	isStateFn := func(t types.Type) (*types.Signature, bool) {
+		sig, ok := t.Underlying().(*types.Signature)
+		if !ok || sig.Results().Len() != 2 || !isStatePtr(sig.Results().At(0).Type()) || !c19IsError(sig.Results().At(1).Type()) {
+			return nil, false
+		}
+		return sig, true
+	}
+	var cands []*types.Named
+	for _, name := range sc.Names() {
+		tn, ok := sc.Lookup(name).(*types.TypeName)
+		if !ok {
+			continue
+		}
+		nt, ok := tn.Type().(*types.Named)
+		if !ok {
+			continue
+		}
+		sst, ok := nt.Underlying().(*types.Struct)
+		if !ok {
+			continue
+		}
+		var fetch, cur, min *types.Var
+		arg := -1
+		for i := 0; i < sst.NumFields(); i++ {
+			f := sst.Field(i)
+			if sig, ok := isStateFn(f.Type()); ok {
+				a := -1
+				for k := 0; k < sig.Params().Len(); k++ {
+					if c19IsUint64(sig.Params().At(k).Type()) {
+						a = k
+					}
+				}
+				if a >= 0 && fetch == nil {
+					fetch, arg = f, a
+				} else if a < 0 && cur == nil {
+					cur = f
+				}
+			} else if b, ok := f.Type().Underlying().(*types.Basic); ok && b.Info()&types.IsInteger != 0 && min == nil {
+				min = f
+			}
+		}
+		if fetch != nil && cur != nil && min != nil {
+			cands = append(cands, nt)
+			if m.stater == nil {
+				m.stater, m.fetchFld, m.fetchArg, m.curFld, m.minFld = nt, fetch, arg, cur, min
+			}
+		}
+	}
+	if len(cands) != 1 {
+		r.Anchor(fmt.Sprintf("search descriptor: one struct type with fields func(…, uint64) (*State, error), func(…) (*State, error) and an integer minimum (found %d)", len(cands)))
+		return nil
+	}
+	// search functions: reachable functions with a descriptor parameter that no other such function calls
+	takes := map[*types.Func]bool{}
+	for f := range m.reach {
+		sig := f.Type().(*types.Signature)
+		for i := 0; i < sig.Params().Len(); i++ {
+			if namedPath(sig.Params().At(i).Type()) == namedPath(m.stater) {
+				takes[f] = true
+			}
+		}
+	}
+	for f := range takes {
+		inner := false
+		for g := range takes {
+			if g != f && c19Reach(pk, m.funcs, g)[f] != nil {
+				inner = true
+			}
+		}
+		if !inner {
+			m.searchFns[f] = true
+		}
+	}
+	if len(m.searchFns) == 0 {
+		r.Anchor("search function receiving the " + m.stater.Obj().Name() + " built by the …StateAt methods")
+		return nil
+	}
 	return m
-}
-
-// c19IsFetch reports whether call is a call through the state-fetch field of the search descriptor
-// and returns its sequence-number argument.
-func (m *c19Model) isFetch(call *ast.CallExpr) (ast.Expr, bool) {
-	if fieldOf(m.info, call.Fun) != m.fetchFld || m.fetchArg >= len(call.Args) {
-		return nil, false
-	}
-	return call.Args[m.fetchArg], true
-}
-
-// ---------------------------------------------------------------- loops
-
-type c19Loop struct {
-	fi     *FuncInfo
-	stmt   ast.Stmt // *ast.ForStmt or *ast.RangeStmt
-	path   string   // "1", "1.2": preorder ordinal within the function
-	parent *c19Loop
-}
-
-func (l *c19Loop) body() *ast.BlockStmt {
-	switch s := l.stmt.(type) {
-	case *ast.ForStmt:
-		return s.Body
-	case *ast.RangeStmt:
-		return s.Body
-	}
-	return nil
-}
-
-func (l *c19Loop) key() string { return "loop@" + l.fi.Name() + "[" + l.path + "]" }
-
-func c19CollectLoops(fi *FuncInfo) []*c19Loop {
-	var out []*c19Loop
-	count := map[*c19Loop]int{}
-	var walk func(n ast.Node, parent *c19Loop)
-	walk = func(n ast.Node, parent *c19Loop) {
-		ast.Inspect(n, func(x ast.Node) bool {
-			if x == nil || x == n {
-				return true
-			}
-			switch x.(type) {
-			case *ast.ForStmt, *ast.RangeStmt:
-				count[parent]++
-				p := fmt.Sprint(count[parent])
-				if parent != nil {
-					p = parent.path + "." + p
-				}
-				l := &c19Loop{fi: fi, stmt: x.(ast.Stmt), path: p, parent: parent}
-				out = append(out, l)
-				walk(l.body(), l)
-				return false
-			}
-			return true
-		})
-	}
-	walk(fi.Decl.Body, nil)
-	return out
-}
-
-// c19AssignedIn collects the variables a statement list assigns (=, :=, op=, ++/--, range
-// key/value, address taken), keyed by object with the position of the first assignment.
-func c19AssignedIn(info *types.Info, nodes ...ast.Node) map[types.Object]token.Pos {
-	out := map[types.Object]token.Pos{}
-	add := func(e ast.Expr, pos token.Pos) {
-		if e == nil {
-			return
-		}
-		if o := rootObj(info, e); o != nil {
-			if _, ok := o.(*types.Var); ok {
-				if _, dup := out[o]; !dup {
-					out[o] = pos
-				}
-			}
-		}
-	}
-	for _, n := range nodes {
-		if n == nil {
-			continue
-		}
-		ast.Inspect(n, func(x ast.Node) bool {
-			switch s := x.(type) {
-			case *ast.AssignStmt:
-				for _, l := range s.Lhs {
-					add(l, s.Pos())
-				}
-			case *ast.IncDecStmt:
-				add(s.X, s.Pos())
-			case *ast.RangeStmt:
-				add(s.Key, s.Pos())
-				add(s.Value, s.Pos())
-			case *ast.UnaryExpr:
-				if s.Op == token.AND {
-					add(s.X, s.Pos())
-				}
-			}
-			return true
-		})
-	}
-	return out
-}
-
-func c19Conjuncts(e ast.Expr) []ast.Expr {
-	e = ast.Unparen(e)
-	if be, ok := e.(*ast.BinaryExpr); ok && be.Op == token.LAND {
-		return append(c19Conjuncts(be.X), c19Conjuncts(be.Y)...)
-	}
-	return []ast.Expr{e}
-}
-
-// c19VarsIn lists the (non-field) variables an expression mentions, in source order.
-func c19VarsIn(info *types.Info, e ast.Node) []types.Object {
-	var out []types.Object
-	seen := map[types.Object]bool{}
-	ast.Inspect(e, func(n ast.Node) bool {
-		if id, ok := n.(*ast.Ident); ok {
-			if v, ok := info.Uses[id].(*types.Var); ok && !v.IsField() && !seen[v] {
-				seen[v] = true
-				out = append(out, v)
-			}
-		}
-		return true
-	})
-	return out
-}
-
-func c19Names(objs []types.Object) string {
-	var s []string
-	for _, o := range objs {
-		s = append(s, o.Name())
-	}
-	return strings.Join(s, ", ")
-}
-
-func c19SortedObjs(m map[types.Object]token.Pos) []types.Object {
-	var out []types.Object
-	for o := range m {
-		out = append(out, o)
-	}
-	sort.Slice(out, func(i, j int) bool {
-		return m[out[i]] < m[out[j]] || (m[out[i]] == m[out[j]] && out[i].Name() < out[j].Name())
-	})
-	return out
-}
-
-// c19HasRealCall reports whether e contains a call that is neither a builtin nor a conversion.
-func c19HasRealCall(info *types.Info, e ast.Node) bool {
-	found := false
-	ast.Inspect(e, func(n ast.Node) bool {
-		if call, ok := n.(*ast.CallExpr); ok {
-			if builtinName(info, call) == "" {
-				if tv, ok := info.Types[call.Fun]; !ok || !tv.IsType() {
-					found = true
-				}
-			}
-		}
-		return !found
-	})
-	return found
-}
-
-// ---------------------------------------------------------------- M1
-
-func c19M1(r *core.R) {
-	m := c19BuildModel(r)
-	if m == nil {
-		return
-	}
-	r.Stat("functions_reachable_from_StateAt", len(m.reachList))
-	nloops := 0
-	for _, fi := range m.reachList {
-		for _, l := range c19CollectLoops(fi) {
-			nloops++
-			switch s := l.stmt.(type) {
-			case *ast.RangeStmt:
-				switch t := m.info.TypeOf(s.X).Underlying().(type) {
-				case *types.Slice, *types.Array, *types.Map, *types.Basic:
-					r.OKTrivial(l.key(), s.Pos(), "range over the finite value `%s` (%s): at most one iteration per element", src(r.P.Fset, s.X), t.String())
-				case *types.Pointer:
-					r.OKTrivial(l.key(), s.Pos(), "range over `%s` (pointer to array)", src(r.P.Fset, s.X))
-				default:
-					r.Unknown(l.key(), s.Pos(), "range over `%s` of type %s (channel or iterator function): the number of iterations is not bounded by a finite value; accepted: slice, array, map, string, integer", src(r.P.Fset, s.X), t.String())
-				}
-			case *ast.ForStmt:
-				if s.Cond == nil {
-					r.Unknown(l.key(), s.Pos(), "`for` without a condition in %s: termination rests on break/return only, which this rule does not decide (accepted idiom: a condition whose every conjunct depends on a variable the body assigns)", fi.Name())
-					continue
-				}
-				varied := c19AssignedIn(m.info, s.Body, s.Post)
-				variedList := c19SortedObjs(varied)
-				for i, cj := range c19Conjuncts(s.Cond) {
-					c := fmt.Sprintf("%s conjunct %d", l.key(), i+1)
-					vars := c19VarsIn(m.info, cj)
-					var hit types.Object
-					for _, v := range vars {
-						if _, ok := varied[v]; ok {
-							hit = v
-							break
-						}
-					}
-					switch {
-					case hit != nil:
-						r.OK(c, cj.Pos(), "`%s` of `for %s` depends on %s, which the loop body assigns (%s)", src(r.P.Fset, cj), src(r.P.Fset, s.Cond), hit.Name(), r.P.Rel(varied[hit]))
-					case c19HasRealCall(m.info, cj):
-						r.Unknown(c, cj.Pos(), "`%s` of `for %s` mentions no variable the body assigns but calls a function; whether its value changes between iterations is not decided (accepted idiom: a comparison over a variable the body assigns)", src(r.P.Fset, cj), src(r.P.Fset, s.Cond))
-					default:
-						r.Bad(c, cj.Pos(), "loop `for %s` in %s: the conjunct `%s` mentions only {%s}, none of which is assigned inside the loop body, so it has the same value on every iteration and bounds nothing; the body varies {%s}. If the other conjuncts stay true (every probed state file missing) the loop never ends and issues requests forever",
-							src(r.P.Fset, s.Cond), fi.Name(), src(r.P.Fset, cj), c19Names(vars), c19Names(variedList))
-					}
-				}
-			}
-		}
-	}
-	r.Stat("loops_reachable_from_StateAt", nloops)
-}
-
-// ---------------------------------------------------------------- M2
-
-// c19SeqSel recognises `X.SeqNum` (field of replication.State) with X a plain variable.
-func (m *c19Model) seqSel(e ast.Expr) types.Object {
-	if fieldOf(m.info, e) != m.seqField {
-		return nil
-	}
-	return objOf(m.info, ast.Unparen(e).(*ast.SelectorExpr).X)
-}
-
-// seqVarsIn lists the variables X of every `X.SeqNum` inside e.
-func (m *c19Model) seqVarsIn(e ast.Expr) []types.Object {
-	var out []types.Object
-	ast.Inspect(e, func(n ast.Node) bool {
-		if sel, ok := n.(*ast.SelectorExpr); ok {
-			if o := m.seqSel(sel); o != nil {
-				out = append(out, o)
-			}
-		}
-		return true
-	})
-	return out
-}
-
-// bounds derives from the condition of the binary-search loop which state variable is the lower
-// and which the upper bound: a conjunct `…lo.SeqNum… < …hi.SeqNum…` (or mirrored).
-func (m *c19Model) bounds(cond ast.Expr) (lo, hi types.Object) {
-	for _, cj := range c19Conjuncts(cond) {
-		be, ok := cj.(*ast.BinaryExpr)
-		if !ok {
-			continue
-		}
-		l, h := be.X, be.Y
-		switch be.Op {
-		case token.LSS, token.LEQ:
-		case token.GTR, token.GEQ:
-			l, h = h, l
-		default:
-			continue
-		}
-		lv, hv := m.seqVarsIn(l), m.seqVarsIn(h)
-		if len(lv) == 1 && len(hv) == 1 && lv[0] != hv[0] {
-			return lv[0], hv[0]
-		}
-	}
-	return nil, nil
-}
-
-// c19Step describes `v++`, `v--`, `v += 1`, `v -= 1`, `v = v ± 1`.
-type c19Step struct {
-	v    types.Object
-	dir  int // +1 / -1
-	stmt ast.Stmt
-}
-
-func c19StepOf(info *types.Info, s ast.Stmt) *c19Step {
-	one := func(e ast.Expr) bool { v, ok := constInt(info, e); return ok && v == 1 }
-	switch x := s.(type) {
-	case *ast.IncDecStmt:
-		if o := objOf(info, x.X); o != nil {
-			if x.Tok == token.INC {
-				return &c19Step{o, +1, s}
-			}
-			return &c19Step{o, -1, s}
-		}
-	case *ast.AssignStmt:
-		if len(x.Lhs) != 1 || len(x.Rhs) != 1 {
-			return nil
-		}
-		o := objOf(info, x.Lhs[0])
-		if o == nil {
-			return nil
-		}
-		switch x.Tok {
-		case token.ADD_ASSIGN:
-			if one(x.Rhs[0]) {
-				return &c19Step{o, +1, s}
-			}
-		case token.SUB_ASSIGN:
-			if one(x.Rhs[0]) {
-				return &c19Step{o, -1, s}
-			}
-		case token.ASSIGN:
-			if be, ok := ast.Unparen(x.Rhs[0]).(*ast.BinaryExpr); ok && objOf(info, be.X) == o && one(be.Y) {
-				if be.Op == token.ADD {
-					return &c19Step{o, +1, s}
-				}
-				if be.Op == token.SUB {
-					return &c19Step{o, -1, s}
-				}
-			}
-		}
-	}
-	return nil
-}
-
-// fetchesIn lists the state-fetch calls directly in body (not inside nested loops or closures).
-func (m *c19Model) fetchesIn(body *ast.BlockStmt) []*ast.CallExpr {
-	var out []*ast.CallExpr
-	ast.Inspect(body, func(n ast.Node) bool {
-		switch x := n.(type) {
-		case *ast.ForStmt, *ast.RangeStmt, *ast.FuncLit:
-			return false
-		case *ast.CallExpr:
-			if _, ok := m.isFetch(x); ok {
-				out = append(out, x)
-			}
-		}
-		return true
-	})
-	return out
-}
-
-// c19DefOf finds the defining `v := rhs` of a local variable inside fn.
-func c19DefOf(info *types.Info, body ast.Node, v types.Object) ast.Expr {
-	var rhs ast.Expr
-	ast.Inspect(body, func(n ast.Node) bool {
-		as, ok := n.(*ast.AssignStmt)
-		if !ok || as.Tok != token.DEFINE || len(as.Lhs) != len(as.Rhs) {
-			return true
-		}
-		for i, l := range as.Lhs {
-			if id, ok := l.(*ast.Ident); ok && info.Defs[id] == v {
-				rhs = as.Rhs[i]
-			}
-		}
-		return true
-	})
-	return rhs
-}
-
-func c19Dir(d int) string {
-	if d < 0 {
-		return "down"
-	}
-	return "up"
-}
-
-func c19M2(r *core.R) {
-	m := c19BuildModel(r)
-	if m == nil {
-		return
-	}
-	fs := r.P.Fset
-	nscan := 0
-	dirs := map[string]map[int]bool{}
-	dirPos := map[string]token.Pos{}
-	for _, fi := range m.reachList {
-		for _, l := range c19CollectLoops(fi) {
-			fl, ok := l.stmt.(*ast.ForStmt)
-			if !ok || l.parent == nil {
-				continue
-			}
-			fetches := m.fetchesIn(fl.Body)
-			if len(fetches) == 0 {
-				continue
-			}
-			nscan++
-			name := "scan[" + l.path + "]@" + fi.Name()
-			outer, _ := l.parent.stmt.(*ast.ForStmt)
-			if len(fetches) != 1 || outer == nil || outer.Cond == nil || fl.Cond == nil {
-				r.Unknown(name, fl.Pos(), "neighbour scan shape not recognised (need exactly one state fetch in a conditional `for` nested in the conditional binary-search `for`)")
-				continue
-			}
-			fetch := fetches[0]
-			arg, _ := m.isFetch(fetch)
-			probe := objOf(m.info, arg)
-			// steps: top-level statements of the body, or the post statement
-			var steps []*c19Step
-			for _, s := range fl.Body.List {
-				if st := c19StepOf(m.info, s); st != nil {
-					steps = append(steps, st)
-				}
-			}
-			postStep := false
-			if fl.Post != nil {
-				if st := c19StepOf(m.info, fl.Post); st != nil {
-					steps = append(steps, st)
-					postStep = true
-				}
-			}
-			varied := c19AssignedIn(m.info, fl.Body, fl.Post)
-			// the scanned variable
-			var v types.Object
-			if probe != nil {
-				if _, ok := varied[probe]; ok {
-					v = probe
-				}
-			}
-			if v == nil && len(steps) == 1 {
-				v = steps[0].v
-			}
-			// direction from the start value `v := mid ± 1`, mid = sequence number probed by the enclosing loop
-			dir := 0
-			startWhy := ""
-			var mid types.Object
-			for _, oc := range m.fetchesIn(outer.Body) {
-				a, _ := m.isFetch(oc)
-				mid = objOf(m.info, a)
-			}
-			if v == nil {
-				startWhy = "no scanned variable identified"
-			} else if def := c19DefOf(m.info, outer.Body, v); def == nil {
-				startWhy = fmt.Sprintf("%s is not defined by `:=` inside the binary-search loop", v.Name())
-			} else if be, ok := ast.Unparen(def).(*ast.BinaryExpr); !ok || (be.Op != token.ADD && be.Op != token.SUB) {
-				startWhy = fmt.Sprintf("start value `%s` is not of the form mid-1 / mid+1", src(fs, def))
-			} else if c, ok := constInt(m.info, be.Y); !ok || c != 1 {
-				startWhy = fmt.Sprintf("start value `%s` is not one step away from the probed middle", src(fs, def))
-			} else if mid == nil || objOf(m.info, be.X) != mid {
-				startWhy = fmt.Sprintf("start value `%s` is not relative to the sequence number probed by the enclosing loop", src(fs, def))
-			} else if be.Op == token.SUB {
-				dir = -1
-			} else {
-				dir = +1
-			}
-			if dir != 0 {
-				name = "scan-" + c19Dir(dir) + "@" + fi.Name()
-				if dirs[fi.Name()] == nil {
-					dirs[fi.Name()] = map[int]bool{}
-				}
-				dirs[fi.Name()][dir] = true
-				dirPos[fi.Name()] = fi.Decl.Pos()
-				r.OK(name+" start", fl.Pos(), "%s starts at `%s`, one step %s from the missing middle %s", v.Name(), src(fs, c19DefOf(m.info, outer.Body, v)), c19Dir(dir), mid.Name())
-			} else {
-				r.Unknown(name+" start", fl.Pos(), "%s; accepted: `v := mid - 1` (scan towards the lower bound) / `v := mid + 1` (towards the upper bound) with mid the argument of the enclosing loop's state fetch", startWhy)
-			}
-			// probe
-			switch {
-			case probe == nil:
-				r.Unknown(name+" probe", fetch.Pos(), "the sequence number passed to the state fetch, `%s`, is not a plain variable", src(fs, arg))
-			case v != probe:
-				r.Bad(name+" probe", fetch.Pos(), "`%s` probes %s, which the scan loop never changes (the loop varies {%s}): every iteration requests the same state file again", src(fs, fetch), probe.Name(), c19Names(c19SortedObjs(varied)))
-			default:
-				r.OK(name+" probe", fetch.Pos(), "`%s` probes %s, the variable the scan steps", src(fs, fetch), probe.Name())
-			}
-			// step
-			var mine []*c19Step
-			for _, st := range steps {
-				if st.v == v {
-					mine = append(mine, st)
-				}
-			}
-			switch {
-			case v == nil || len(mine) == 0:
-				r.Bad(name+" step", fl.Pos(), "the scan does not step its sequence number by one per iteration (no `v++`/`v--` at the top level of the loop body)")
-			case len(mine) > 1:
-				r.Bad(name+" step", mine[1].stmt.Pos(), "%s is stepped %d times per iteration: every other state file is skipped", v.Name(), len(mine))
-			case dir != 0 && mine[0].dir != dir:
-				r.Bad(name+" step", mine[0].stmt.Pos(), "`%s` steps %s but the scan starts one %s from the middle and must walk %s towards its bound: it walks away from the bound it is compared with", src(fs, mine[0].stmt), c19Dir(mine[0].dir), c19Dir(dir), c19Dir(dir))
-			case !postStep && mine[0].stmt.Pos() < fetch.Pos():
-				r.Bad(name+" step", mine[0].stmt.Pos(), "`%s` comes before the probe: the first neighbour is skipped and the last probe falls on the bound itself", src(fs, mine[0].stmt))
-			default:
-				r.OK(name+" step", mine[0].stmt.Pos(), "`%s` after the probe, once per iteration", src(fs, mine[0].stmt))
-			}
-			// bound
-			lo, hi := m.bounds(outer.Cond)
-			func() {
-				c := name + " bound"
-				if lo == nil || hi == nil {
-					r.Unknown(c, fl.Cond.Pos(), "cannot tell lower from upper bound: the enclosing loop condition `%s` is not of the form `lo.SeqNum… < hi.SeqNum`", src(fs, outer.Cond))
-					return
-				}
-				if dir == 0 || v == nil {
-					r.Unknown(c, fl.Cond.Pos(), "scan direction unknown (see the start obligation)")
-					return
-				}
-				want, wantSrc := lo, lo.Name()+".SeqNum < "+v.Name()
-				if dir > 0 {
-					want, wantSrc = hi, v.Name()+" < "+hi.Name()+".SeqNum"
-				}
-				if _, moved := varied[want]; moved {
-					r.Bad(c, fl.Cond.Pos(), "the bound %s is reassigned inside the scan loop", want.Name())
-					return
-				}
-				var near []string
-				for _, cj := range c19Conjuncts(fl.Cond) {
-					be, ok := cj.(*ast.BinaryExpr)
-					if !ok {
-						continue
-					}
-					small, big, strict := be.X, be.Y, true
-					switch be.Op {
-					case token.LSS:
-					case token.GTR:
-						small, big = big, small
-					case token.LEQ:
-						strict = false
-					case token.GEQ:
-						small, big, strict = big, small, false
-					default:
-						continue
-					}
-					// down: want.SeqNum < v ; up: v < want.SeqNum
-					bnd, oth := small, big
-					if dir > 0 {
-						bnd, oth = big, small
-					}
-					if m.seqSel(bnd) != want {
-						if bo := m.seqSel(oth); bo != nil && (objOf(m.info, bnd) == v || bo == want) {
-							near = append(near, fmt.Sprintf("`%s` has the bound on the wrong side", src(fs, cj)))
-						}
-						continue
-					}
-					o := objOf(m.info, oth)
-					switch {
-					case o == v && strict:
-						r.OK(c, cj.Pos(), "`%s`: the stepped variable %s is compared strictly with %s.SeqNum, the bound it walks %s towards; every probe lies strictly between the bounds and the scan ends after at most |%s - %s.SeqNum| requests", src(fs, cj), v.Name(), want.Name(), c19Dir(dir), mid.Name(), want.Name())
-						return
-					case o == v:
-						near = append(near, fmt.Sprintf("`%s` is not strict: the scan probes %s.SeqNum itself, finds the bound state again and the search makes no progress", src(fs, cj), want.Name()))
-					case o != nil:
-						if _, ok := varied[o]; !ok {
-							near = append(near, fmt.Sprintf("`%s` compares %s, which the scan loop never changes, with %s.SeqNum (the loop steps %s): the test is constant and the scan walks past the bound", src(fs, cj), o.Name(), want.Name(), v.Name()))
-						} else {
-							near = append(near, fmt.Sprintf("`%s` compares %s, not the probed variable %s", src(fs, cj), o.Name(), v.Name()))
-						}
-					default:
-						near = append(near, fmt.Sprintf("`%s` does not compare a plain variable with the bound", src(fs, cj)))
-					}
-				}
-				why := "no conjunct of `" + src(fs, fl.Cond) + "` relates " + v.Name() + " to " + want.Name() + ".SeqNum"
-				if len(near) > 0 {
-					why = strings.Join(near, "; ")
-				}
-				r.Bad(c, fl.Cond.Pos(), "%s. Required: `%s`. With all state files between the bound and the middle missing the scan never stops on its bound (unbounded requests, and probes outside the open interval)", why, wantSrc)
-			}()
-			// stop on the first state found
-			func() {
-				c := name + " stop"
-				par := parentsOf(r.P, fi)
-				as, ok := par[fetch].(*ast.AssignStmt)
-				if !ok || len(as.Lhs) == 0 || len(as.Rhs) != 1 {
-					r.Unknown(c, fetch.Pos(), "the result of `%s` is not assigned to variables", src(fs, fetch))
-					return
-				}
-				res := objOf(m.info, as.Lhs[0])
-				for _, cj := range c19Conjuncts(fl.Cond) {
-					be, ok := cj.(*ast.BinaryExpr)
-					if !ok || be.Op != token.EQL {
-						continue
-					}
-					x, y := be.X, be.Y
-					if tv := m.info.Types[x]; tv.IsNil() {
-						x, y = y, x
-					}
-					if tv := m.info.Types[y]; tv.IsNil() && res != nil && objOf(m.info, x) == res {
-						r.OK(c, cj.Pos(), "`%s`: the scan continues only while the fetched state %s is missing, so it ends on the first state found", src(fs, cj), res.Name())
-						return
-					}
-				}
-				n := "the fetched state"
-				if res != nil {
-					n = res.Name()
-				}
-				r.Bad(c, fl.Cond.Pos(), "`for %s` has no conjunct `%s == nil`: the scan does not stop at the first available neighbour state and later (possibly missing) probes overwrite it", src(fs, fl.Cond), n)
-			}()
-		}
-	}
-	r.Stat("neighbour_scans", nscan)
-	c19M2Exhausted(r, m)
-	var fns []string
-	for fn := range dirs {
-		fns = append(fns, fn)
-	}
-	sort.Strings(fns)
-	for _, fn := range fns {
-		d := dirs[fn]
-		if d[-1] && d[+1] {
-			r.OK("scans@"+fn+" both directions", dirPos[fn], "a missing middle state is looked for towards the lower and towards the upper bound")
-		} else {
-			r.Bad("scans@"+fn+" both directions", dirPos[fn], "neighbour scans in %s go %s only: available states on the other side of a missing middle are never considered", fn, c19Dir(map[bool]int{true: -1, false: +1}[d[-1]]))
-		}
-	}
-	if nscan == 0 {
-		r.Anchor("neighbour scans (inner loops calling the state fetch) in the binary search")
-	}
-}
-
-// ---------------------------------------------------------------- M3
-
-// c19URLSite is a fmt.Sprintf call one of whose arguments is a Dir() call: a replication URL.
-type c19URLSite struct {
-	fi      *FuncInfo
-	call    *ast.CallExpr
-	format  string
-	dirArg  int
-	dirRecv ast.Expr
-	intArgs []int // indexes of integer-typed arguments (after the format)
-}
-
-func (m *c19Model) urlSites() []*c19URLSite {
-	var out []*c19URLSite
-	for _, fi := range c19SortedFuncs(m.funcs) {
-		fi := fi
-		ast.Inspect(fi.Decl.Body, func(n ast.Node) bool {
-			call, ok := n.(*ast.CallExpr)
-			if !ok || !isPkgFunc(callee(m.info, call), "fmt", "Sprintf") || len(call.Args) < 2 {
-				return true
-			}
-			f, ok := constString(m.info, call.Args[0])
-			if !ok {
-				return true
-			}
-			s := &c19URLSite{fi: fi, call: call, format: f, dirArg: -1}
-			for i, a := range call.Args[1:] {
-				if c, ok := ast.Unparen(a).(*ast.CallExpr); ok {
-					if fn := callee(m.info, c); fn != nil && fn.Name() == "Dir" && fn.Pkg() == m.pk.Types && len(c.Args) == 0 {
-						if sel, ok := ast.Unparen(c.Fun).(*ast.SelectorExpr); ok {
-							s.dirArg, s.dirRecv = i, sel.X
-						}
-					}
-				}
-				if b, ok := m.info.TypeOf(a).Underlying().(*types.Basic); ok && b.Info()&types.IsInteger != 0 {
-					s.intArgs = append(s.intArgs, i)
-				}
-			}
-			if s.dirArg >= 0 {
-				out = append(out, s)
-			}
-			return true
-		})
-	}
-	return out
-}
-
-// familyOf returns the table family of the kinds assignable to t ("" when none or mixed).
-func (m *c19Model) familyOf(t *c19Table, typ types.Type) string {
-	fam := ""
-	for name, k := range t.Kinds {
-		nt := m.kinds[name]
-		if nt == nil || !types.AssignableTo(nt, typ) {
-			continue
-		}
-		if fam != "" && fam != k.Family {
-			return ""
-		}
-		fam = k.Family
-	}
-	return fam
-}
-
-func c19Pow10(n int) int64 {
-	v := int64(1)
-	for i := 0; i < n; i++ {
-		v *= 10
-	}
-	return v
-}
-
-// c19LevelOK checks that e selects decimal digit group [lo, lo+digits) of variable n:
-// top: n/d or (n/d)%m; middle: (n%(d*m))/d or (n/d)%m; last (d == 1): n%m.
-func c19LevelOK(info *types.Info, e ast.Expr, n types.Object, d, mod int64, top bool) bool {
-	isN := func(x ast.Expr) bool { return objOf(info, x) == n }
-	isC := func(x ast.Expr, c int64) bool { v, ok := constInt(info, x); return ok && v == c }
-	bin := func(x ast.Expr, op token.Token) (*ast.BinaryExpr, bool) {
-		be, ok := ast.Unparen(x).(*ast.BinaryExpr)
-		return be, ok && be.Op == op
-	}
-	if d == 1 {
-		be, ok := bin(e, token.REM)
-		return ok && isN(be.X) && isC(be.Y, mod)
-	}
-	if be, ok := bin(e, token.QUO); ok && isC(be.Y, d) {
-		if top && isN(be.X) {
-			return true
-		}
-		if in, ok := bin(be.X, token.REM); ok && isN(in.X) && isC(in.Y, d*mod) {
-			return true
-		}
-	}
-	if be, ok := bin(e, token.REM); ok && isC(be.Y, mod) {
-		if in, ok := bin(be.X, token.QUO); ok && isN(in.X) && isC(in.Y, d) {
-			return true
-		}
-	}
-	return false
-}
-
-// c19ParamOf returns the index of the parameter of fi that obj is, or -1.
-func c19ParamOf(fi *FuncInfo, obj types.Object) int {
-	ps := fi.Obj.Type().(*types.Signature).Params()
-	for i := 0; i < ps.Len(); i++ {
-		if ps.At(i) == obj {
-			return i
-		}
-	}
-	return -1
-}
-
-// c19IsSeqValueOf: e is `p.Uint64()`, `uint64(p)` or p itself for the given variable p.
-func c19IsSeqValueOf(info *types.Info, e ast.Expr, p types.Object) bool {
-	e = ast.Unparen(e)
-	if objOf(info, e) == p {
-		return true
-	}
-	call, ok := e.(*ast.CallExpr)
-	if !ok {
-		return false
-	}
-	if tv, ok := info.Types[call.Fun]; ok && tv.IsType() && len(call.Args) == 1 {
-		return objOf(info, call.Args[0]) == p
-	}
-	if sel, ok := ast.Unparen(call.Fun).(*ast.SelectorExpr); ok && len(call.Args) == 0 && sel.Sel.Name == "Uint64" {
-		if fn := callee(info, call); fn != nil && fn.Name() == "Uint64" {
-			return objOf(info, sel.X) == p
-		}
-	}
-	return false
-}
-
-type c19Concat struct {
-	fi      *FuncInfo
-	builder *types.Func
-	suffix  string
-	ok      bool
-	pos     token.Pos
-}
-
-func c19M3(r *core.R) {
-	m := c19BuildModel(r)
-	t := c19LoadTable(r)
-	if m == nil || t == nil {
-		return
-	}
-	fs := r.P.Fset
-	info := m.info
-	recvOf := func(fi *FuncInfo) types.Object {
-		if fi.Decl.Recv != nil && len(fi.Decl.Recv.List) == 1 && len(fi.Decl.Recv.List[0].Names) == 1 {
-			return info.Defs[fi.Decl.Recv.List[0].Names[0]]
-		}
-		return nil
-	}
-
-	// (a) sequence-numbered path builders and current-state URLs
-	builders := map[*types.Func]string{} // builder -> family
-	var currentSites []*c19URLSite
-	sites := m.urlSites()
-	r.Stat("url_format_sites", len(sites))
-	for _, s := range sites {
-		fam := m.familyOf(t, info.TypeOf(s.dirRecv))
-		dirObj := objOf(info, s.dirRecv)
-		recv := recvOf(s.fi)
-		baseOK := recv != nil && s.dirArg == 1 && usesObj(info, s.call.Args[1], recv) && !usesObj(info, s.call.Args[1], dirObj)
-		if len(s.intArgs) == 0 {
-			currentSites = append(currentSites, s)
-			c := "current-url@" + s.fi.Name()
-			if fam == "" {
-				r.Unknown(c, s.call.Pos(), "cannot tell the replication family of `%s` (type %s)", src(fs, s.dirRecv), info.TypeOf(s.dirRecv))
-				continue
-			}
-			want := strings.Replace(t.CurrentStateFormat, "{name}", t.Families[fam].CurrentState, 1)
-			switch {
-			case s.format != want:
-				r.Bad(c, s.call.Pos(), "current %s state is requested with format %q; the planet server serves it at %q", fam, s.format, want)
-			case !baseOK || len(s.call.Args) != 3:
-				r.Bad(c, s.call.Pos(), "`%s`: the arguments must be the datasource's base URL and %s.Dir(), in this order", src(fs, s.call), src(fs, s.dirRecv))
-			default:
-				r.OK(c, s.call.Pos(), "format %q with (base URL of the datasource, %s.Dir()) = table current-state URL of family %s", s.format, src(fs, s.dirRecv), fam)
-			}
-			continue
-		}
-		c := "seqpath@" + s.fi.Name()
-		if fam == "" || c19ParamOf(s.fi, dirObj) < 0 {
-			r.Unknown(c+" format", s.call.Pos(), "`%s.Dir()` is not called on a parameter whose kinds belong to one replication family", src(fs, s.dirRecv))
-			continue
-		}
-		builders[s.fi.Obj] = fam
-		switch {
-		case s.format != t.SeqPath.Format:
-			r.Bad(c+" format", s.call.Pos(), "sequence path format is %q; the planet layout is %q (three zero-padded three-digit levels under replication/<dir>)", s.format, t.SeqPath.Format)
-		case !baseOK:
-			r.Bad(c+" format", s.call.Pos(), "`%s`: the first two arguments must be the datasource's base URL and %s.Dir()", src(fs, s.call), src(fs, s.dirRecv))
-		default:
-			r.OK(c+" format", s.call.Pos(), "format %q, base URL from the datasource, directory from %s.Dir() (family %s)", s.format, src(fs, s.dirRecv), fam)
-		}
-		// levels
-		if len(s.intArgs) != t.SeqPath.Levels || s.intArgs[0] != 2 || len(s.call.Args) != 3+t.SeqPath.Levels {
-			r.Bad(c+" levels", s.call.Pos(), "`%s` passes %d integer arguments; the layout has %d levels", src(fs, s.call), len(s.intArgs), t.SeqPath.Levels)
-			continue
-		}
-		// the split variable: every level mentions exactly one variable, the same one, defined from the parameter
-		var nObj types.Object
-		for _, i := range s.intArgs {
-			vs := c19VarsIn(info, s.call.Args[1+i])
-			if len(vs) == 1 && (nObj == nil || nObj == vs[0]) {
-				nObj = vs[0]
-			} else {
-				nObj = nil
-				break
-			}
-		}
-		nOK := false
-		if nObj != nil {
-			if nObj == dirObj {
-				nOK = true
-			} else if def := c19DefOf(info, s.fi.Decl.Body, nObj); def != nil && c19IsSeqValueOf(info, def, dirObj) {
-				_, again := c19AssignedInExcept(info, s.fi.Decl.Body, nObj)[nObj]
-				nOK = !again
-			}
-		}
-		mod := c19Pow10(t.SeqPath.Digits)
-		for k := 0; k < t.SeqPath.Levels; k++ {
-			cc := fmt.Sprintf("%s level %d", c, k+1)
-			e := s.call.Args[1+s.intArgs[k]]
-			d := c19Pow10(t.SeqPath.Digits * (t.SeqPath.Levels - 1 - k))
-			switch {
-			case !nOK:
-				r.Bad(cc, e.Pos(), "`%s`: the level arguments are not all computed from one variable holding the numeric value of %s (and only that)", src(fs, e), src(fs, s.dirRecv))
-			case !c19LevelOK(info, e, nObj, d, mod, k == 0):
-				r.Bad(cc, e.Pos(), "level %d of the path is `%s`; the planet layout needs the decimal digits %d..%d of the sequence number, i.e. (%s/%d)%%%d", k+1, src(fs, e), t.SeqPath.Digits*(t.SeqPath.Levels-1-k), t.SeqPath.Digits*(t.SeqPath.Levels-k)-1, nObj.Name(), d, mod)
-			default:
-				r.OK(cc, e.Pos(), "`%s` = decimal digit group %d of %s (divisor %d, modulus %d, constants evaluated by the type checker)", src(fs, e), k+1, nObj.Name(), d, mod)
-			}
-		}
-	}
-	if len(builders) == 0 {
-		r.Anchor("sequence path builders (fmt.Sprintf with a Dir() and integer level arguments)")
-	}
-
-	// (b) suffixes: every use of a builder is `builder(x) + CONST`
-	var concats []*c19Concat
-	for _, fi := range c19SortedFuncs(m.funcs) {
-		fi := fi
-		par := parentsOf(r.P, fi)
-		ast.Inspect(fi.Decl.Body, func(n ast.Node) bool {
-			call, ok := n.(*ast.CallExpr)
-			if !ok {
-				return true
-			}
-			fn := callee(info, call)
-			if _, isB := builders[fn]; !isB {
-				return true
-			}
-			cc := &c19Concat{fi: fi, builder: fn, pos: call.Pos()}
-			if be, ok := par[call].(*ast.BinaryExpr); ok && be.Op == token.ADD && be.X == ast.Expr(call) {
-				if sfx, ok := constString(info, be.Y); ok {
-					if _, nested := par[be].(*ast.BinaryExpr); !nested {
-						cc.suffix, cc.ok = sfx, true
-					}
-				}
-			}
-			concats = append(concats, cc)
-			return true
-		})
-	}
-	for _, cc := range concats {
-		if !cc.ok {
-			r.Unknown("suffix@"+cc.fi.Name(), cc.pos, "the result of %s is not used as `%s(x) + \"<constant suffix>\"`; the file name requested cannot be determined", cc.builder.Name(), cc.builder.Name())
-		}
-	}
-	for _, dm := range m.methods {
-		if dm.role != "state" && dm.role != "data" {
-			continue
-		}
-		c := "file@" + dm.fi.Name()
-		k, ok := t.Kinds[dm.kind.Obj().Name()]
-		if !ok {
-			r.Unknown(c, dm.fi.Decl.Pos(), "sequence-number type %s is not in tables/replication.json", dm.kind.Obj().Name())
-			continue
-		}
-		want := t.Families[k.Family].StateSuffix
-		if dm.role == "data" {
-			want = t.Families[k.Family].DataSuffix
-		}
-		reach := c19Reach(m.pk, m.funcs, dm.fi.Obj)
-		var got []string
-		bad := ""
-		for _, cc := range concats {
-			if reach[cc.fi.Obj] == nil || !cc.ok {
-				continue
-			}
-			got = append(got, cc.builder.Name()+"+"+cc.suffix)
-			if builders[cc.builder] != k.Family {
-				bad = fmt.Sprintf("uses the path builder of family %s (%s)", builders[cc.builder], cc.builder.Name())
-			} else if cc.suffix != want {
-				bad = fmt.Sprintf("requests suffix %q (%s)", cc.suffix, r.P.Rel(cc.pos))
-			}
-		}
-		switch {
-		case len(got) == 0:
-			r.Bad(c, dm.fi.Decl.Pos(), "%s reaches no sequence-numbered URL (`builder(n) + suffix`)", dm.fi.Name())
-		case bad != "":
-			r.Bad(c, dm.fi.Decl.Pos(), "%s %s; the planet server names the %s file of a %s sequence `NNN/NNN/NNN%s`", dm.fi.Name(), bad, dm.role, k.Family, want)
-		case len(got) != 1:
-			r.Unknown(c, dm.fi.Decl.Pos(), "%s reaches %d sequence-numbered URLs %v; expected exactly one", dm.fi.Name(), len(got), got)
-		default:
-			r.OK(c, dm.fi.Decl.Pos(), "the only sequence-numbered URL reachable is %s (family %s, %s file)", strings.Replace(got[0], "+", "(n) + ", 1), k.Family, dm.role)
-		}
-	}
-
-	// (c) numbered vs current URL selection, and the Current…State methods ask for number 0
-	for _, s := range currentSites {
-		c := "select@" + s.fi.Name()
-		par := parentsOf(r.P, s.fi)
-		ifs, _ := enclosing(par, s.call, func(n ast.Node) bool { _, ok := n.(*ast.IfStmt); return ok }).(*ast.IfStmt)
-		dirObj := objOf(info, s.dirRecv)
-		if ifs == nil || ifs.Else == nil || c19ParamOf(s.fi, dirObj) < 0 {
-			r.Unknown(c, s.call.Pos(), "the current-state URL is not chosen by an if/else on the sequence-number parameter")
-			continue
-		}
-		op, okz := c19ZeroTest(info, ifs.Cond, dirObj)
-		inThen := ifs.Body.Pos() <= s.call.Pos() && s.call.End() <= ifs.Body.End()
-		var other ast.Node = ifs.Else
-		if !inThen {
-			other = ifs.Body
-		}
-		otherNumbered := false
-		for _, cc := range concats {
-			if cc.fi == s.fi && other.Pos() <= cc.pos && cc.pos <= other.End() {
-				otherNumbered = true
-			}
-		}
-		switch {
-		case !okz:
-			r.Unknown(c, ifs.Cond.Pos(), "`%s` is not a comparison of %s with 0", src(fs, ifs.Cond), dirObj.Name())
-		case (op == token.EQL) != inThen:
-			r.Bad(c, ifs.Cond.Pos(), "`if %s`: the current-state file is requested for non-zero sequence numbers and the numbered file for 0", src(fs, ifs.Cond))
-		case !otherNumbered:
-			r.Bad(c, ifs.Cond.Pos(), "the other branch of `if %s` does not build the sequence-numbered URL", src(fs, ifs.Cond))
-		default:
-			r.OK(c, ifs.Cond.Pos(), "`if %s`: number 0 selects the current-state file, every other number its NNN/NNN/NNN file", src(fs, ifs.Cond))
-		}
-	}
-	for _, dm := range m.methods {
-		if dm.role != "current" {
-			continue
-		}
-		c := "current@" + dm.fi.Name()
-		n, zero := 0, 0
-		ast.Inspect(dm.fi.Decl.Body, func(x ast.Node) bool {
-			call, ok := x.(*ast.CallExpr)
-			if !ok {
-				return true
-			}
-			fn := callee(info, call)
-			if fn == nil || m.funcs[fn] == nil {
-				return true
-			}
-			for _, a := range call.Args {
-				if b, ok := info.TypeOf(a).Underlying().(*types.Basic); ok && b.Info()&types.IsInteger != 0 {
-					n++
-					if v, ok := constInt(info, a); ok && v == 0 {
-						zero++
-					}
-				}
-			}
-			return true
-		})
-		if n == 1 && zero == 1 {
-			r.OK(c, dm.fi.Decl.Pos(), "asks the state fetcher for sequence number 0, which selects the current-state file")
-		} else {
-			r.Bad(c, dm.fi.Decl.Pos(), "%s does not ask the state fetcher for the constant sequence number 0 (the current-state file)", dm.fi.Name())
-		}
-	}
-
-	// (d) Dir() values
-	var kn []string
-	for k := range t.Kinds {
-		kn = append(kn, k)
-	}
-	sort.Strings(kn)
-	for _, name := range kn {
-		c := "dir@" + name
-		fi := findFunc(m.pk, name+".Dir")
-		if m.kinds[name] == nil || fi == nil {
-			r.Anchor(c19Pkg + "." + name + ".Dir")
-			continue
-		}
-		var vals []string
-		konst := true
-		ast.Inspect(fi.Decl.Body, func(n ast.Node) bool {
-			if ret, ok := n.(*ast.ReturnStmt); ok && len(ret.Results) == 1 {
-				if v, ok := constString(info, ret.Results[0]); ok {
-					vals = append(vals, v)
-				} else {
-					konst = false
-				}
-			}
-			return true
-		})
-		switch {
-		case !konst || len(vals) != 1:
-			r.Unknown(c, fi.Decl.Pos(), "Dir() does not return a single constant string")
-		case vals[0] != t.Kinds[name].Dir:
-			r.Bad(c, fi.Decl.Pos(), "%s.Dir() returns %q; the planet directory is %q", name, vals[0], t.Kinds[name].Dir)
-		default:
-			r.OKTrivial(c, fi.Decl.Pos(), "%s.Dir() = %q", name, vals[0])
-		}
-	}
-
-	c19M3Time(r, m, t)
-	c19M3NotFound(r, m, t)
-}
-
-// c19AssignedInExcept is c19AssignedIn without the defining `:=` of v.
-func c19AssignedInExcept(info *types.Info, body ast.Node, v types.Object) map[types.Object]token.Pos {
-	out := map[types.Object]token.Pos{}
-	ast.Inspect(body, func(n ast.Node) bool {
-		switch s := n.(type) {
-		case *ast.AssignStmt:
-			for _, l := range s.Lhs {
-				if id, ok := l.(*ast.Ident); ok && info.Defs[id] == v {
-					continue
-				}
-				if o := rootObj(info, l); o != nil {
-					out[o] = s.Pos()
-				}
-			}
-		case *ast.IncDecStmt:
-			if o := rootObj(info, s.X); o != nil {
-				out[o] = s.Pos()
-			}
-		case *ast.UnaryExpr:
-			if s.Op == token.AND {
-				if o := rootObj(info, s.X); o != nil {
-					out[o] = s.Pos()
-				}
-			}
-		}
-		return true
-	})
-	return out
-}
-
-// c19ZeroTest recognises `p == 0`, `p != 0`, `p.Uint64() != 0`, `uint64(p) == 0` (either order).
-func c19ZeroTest(info *types.Info, cond ast.Expr, p types.Object) (token.Token, bool) {
-	be, ok := ast.Unparen(cond).(*ast.BinaryExpr)
-	if !ok || (be.Op != token.EQL && be.Op != token.NEQ) {
-		return 0, false
-	}
-	x, y := be.X, be.Y
-	if v, ok := constInt(info, x); ok && v == 0 {
-		x, y = y, x
-	}
-	if v, ok := constInt(info, y); !ok || v != 0 {
-		return 0, false
-	}
-	if _, isConst := constInt(info, x); isConst || !c19IsSeqValueOf(info, x, p) {
-		return 0, false
-	}
-	return be.Op, true
-}
-
-// c19M3Time: the function that parses state timestamps tries a list of constant layouts in order
-// and returns the first success; the planet's timestamp forms (table) must come out right.
-func c19M3Time(r *core.R, m *c19Model, t *c19Table) {
-	info := m.info
-	fs := r.P.Fset
-	stateReach := map[*types.Func]*FuncInfo{}
-	for _, dm := range m.methods {
-		if dm.role == "state" {
-			for f, fi := range c19Reach(m.pk, m.funcs, dm.fi.Obj) {
-				stateReach[f] = fi
-			}
-		}
-	}
-	var parsers []*FuncInfo
-	calls := map[*FuncInfo]*ast.CallExpr{}
-	for _, fi := range c19SortedFuncs(stateReach) {
-		fi := fi
-		ast.Inspect(fi.Decl.Body, func(n ast.Node) bool {
-			if call, ok := n.(*ast.CallExpr); ok && isPkgFunc(callee(info, call), "time", "Parse") && len(call.Args) == 2 {
-				if calls[fi] == nil {
-					parsers = append(parsers, fi)
-				}
-				calls[fi] = call
-			}
-			return true
-		})
-	}
-	if len(parsers) != 1 {
-		r.Anchor(fmt.Sprintf("the single function calling time.Parse reachable from the state fetchers (found %d)", len(parsers)))
-		return
-	}
-	fi := parsers[0]
-	call := calls[fi]
-	c := "time-loop@" + fi.Name()
-	par := parentsOf(r.P, fi)
-	rs, _ := enclosing(par, call, func(n ast.Node) bool { _, ok := n.(*ast.RangeStmt); return ok }).(*ast.RangeStmt)
-	if rs == nil || rs.Value == nil || objOf(info, call.Args[0]) == nil || objOf(info, call.Args[0]) != objOf(info, rs.Value) {
-		r.Unknown(c, call.Pos(), "`%s` is not applied to the value variable of a range over the layout list", src(fs, call))
-		return
-	}
-	if c19ParamOf(fi, objOf(info, call.Args[1])) < 0 {
-		r.Unknown(c, call.Pos(), "`%s` does not parse the function's string parameter", src(fs, call))
-		return
-	}
-	// layouts: a composite literal of constant strings, directly or through a package variable never reassigned
-	var lit *ast.CompositeLit
-	listObj := objOf(info, rs.X)
-	if cl, ok := ast.Unparen(rs.X).(*ast.CompositeLit); ok {
-		lit = cl
-	} else if v, ok := listObj.(*types.Var); ok && v.Parent() == m.pk.Types.Scope() {
-		for _, f := range m.pk.Syntax {
-			ast.Inspect(f, func(n ast.Node) bool {
-				vs, ok := n.(*ast.ValueSpec)
-				if !ok {
-					return true
-				}
-				for i, nm := range vs.Names {
-					if info.Defs[nm] == v && i < len(vs.Values) {
-						lit, _ = ast.Unparen(vs.Values[i]).(*ast.CompositeLit)
-					}
-				}
-				return true
-			})
-		}
-		for _, g := range c19SortedFuncs(m.funcs) {
-			if pos, ok := c19AssignedIn(info, g.Decl.Body)[v]; ok {
-				r.Unknown(c, pos, "the layout list %s is modified at run time in %s", v.Name(), g.Name())
-				return
-			}
-		}
-	}
-	if lit == nil {
-		r.Unknown(c, rs.Pos(), "the layout list `%s` is not a composite literal of constant strings", src(fs, rs.X))
-		return
-	}
-	var layouts []string
-	for _, e := range lit.Elts {
-		s, ok := constString(info, e)
-		if !ok {
-			r.Unknown(c, e.Pos(), "layout `%s` is not a constant string", src(fs, e))
-			return
-		}
-		layouts = append(layouts, s)
-	}
-	// first success is returned from inside the loop
-	firstWins := false
-	ast.Inspect(rs.Body, func(n ast.Node) bool {
-		ifs, ok := n.(*ast.IfStmt)
-		if !ok {
-			return true
-		}
-		be, ok := ast.Unparen(ifs.Cond).(*ast.BinaryExpr)
-		if !ok || be.Op != token.EQL || !c19IsError(info.TypeOf(be.X)) || !info.Types[be.Y].IsNil() {
-			return true
-		}
-		for _, s := range ifs.Body.List {
-			if _, ok := s.(*ast.ReturnStmt); ok && ifs.Pos() > call.Pos() {
-				firstWins = true
-			}
-		}
-		return true
-	})
-	if !firstWins {
-		r.Bad(c, rs.Pos(), "the layout loop does not return on the first layout that parses (`if err == nil { return t, nil }` after time.Parse)")
-		return
-	}
-	r.OK(c, rs.Pos(), "tries the %d constant layouts of `%s` in order on its parameter and returns the first that parses", len(layouts), src(fs, rs.X))
-	r.Stat("time_layouts", len(layouts))
-	for _, ex := range t.Timestamps {
-		cc := "time " + ex.Family + " " + ex.Text
-		want, err := time.Parse(time.RFC3339Nano, ex.Instant)
-		if err != nil {
-			r.Anchor("table timestamps instant " + ex.Instant)
-			continue
-		}
-		done := false
-		for _, l := range layouts {
-			got, err := time.Parse(l, ex.Text)
-			if err != nil {
-				continue
-			}
-			done = true
-			if got.Equal(want) {
-				r.OK(cc, lit.Pos(), "planet timestamp %q is accepted by layout %q (first match in list order) as %s", ex.Text, l, want.UTC().Format(time.RFC3339Nano))
-			} else {
-				r.Bad(cc, lit.Pos(), "planet timestamp %q is read by layout %q as %s instead of %s", ex.Text, l, got.UTC().Format(time.RFC3339Nano), want.UTC().Format(time.RFC3339Nano))
-			}
-			break
-		}
-		if !done {
-			r.Bad(cc, lit.Pos(), "no layout of %q accepts the planet's %s state timestamp %q (escaped colons / fractional seconds): every such state file fails to decode and the lookup aborts", layouts, ex.Family, ex.Text)
-		}
-	}
-}
-
-// c19M3NotFound: NotFound(err) is true only for *UnexpectedStatusCodeError with Code == 404, and
-// the fetchers put the real HTTP status into that error.
-func c19M3NotFound(r *core.R, m *c19Model, t *c19Table) {
-	info := m.info
-	fs := r.P.Fset
-	fi := findFunc(m.pk, "NotFound")
-	errT, errSt := structType(m.pk, "UnexpectedStatusCodeError")
-	if fi == nil || errSt == nil {
-		r.Anchor(c19Pkg + ".NotFound / UnexpectedStatusCodeError")
-		return
-	}
-	var codeFld *types.Var
-	for i := 0; i < errSt.NumFields(); i++ {
-		if errSt.Field(i).Name() == "Code" {
-			codeFld = errSt.Field(i)
-		}
-	}
-	if codeFld == nil || fi.Obj.Type().(*types.Signature).Params().Len() != 1 {
-		r.Anchor(c19Pkg + ".UnexpectedStatusCodeError.Code")
-		return
-	}
-	errParam := fi.Obj.Type().(*types.Signature).Params().At(0)
-	positive := 0
-	bad := false
-	ast.Inspect(fi.Decl.Body, func(n ast.Node) bool {
-		ret, ok := n.(*ast.ReturnStmt)
-		if !ok {
-			return true
-		}
-		if len(ret.Results) != 1 {
-			r.Unknown("notfound return", ret.Pos(), "`%s`: not a single boolean result", src(fs, ret))
-			bad = true
-			return true
-		}
-		e := ast.Unparen(ret.Results[0])
-		if tv := info.Types[e]; tv.Value != nil {
-			if tv.Value.String() == "true" {
-				r.Bad("notfound return", ret.Pos(), "NotFound returns the constant true at %s: errors other than status %d are then treated as a missing file and stepped over", r.P.Rel(ret.Pos()), t.NotFoundStatus)
-				bad = true
-			}
-			return true
-		}
-		be, ok := e.(*ast.BinaryExpr)
-		if !ok || be.Op != token.EQL {
-			r.Unknown("notfound return", ret.Pos(), "`%s` is not of the accepted forms `return false` / `return e.Code == <const>`", src(fs, ret))
-			bad = true
-			return true
-		}
-		x, y := be.X, be.Y
-		if _, ok := constInt(info, x); ok {
-			x, y = y, x
-		}
-		v, isConst := constInt(info, y)
-		if fieldOf(info, x) != codeFld || !isConst {
-			r.Unknown("notfound return", ret.Pos(), "`%s` does not compare UnexpectedStatusCodeError.Code with a constant", src(fs, ret))
-			bad = true
-			return true
-		}
-		if v != t.NotFoundStatus {
-			r.Bad("notfound return", ret.Pos(), "`%s` treats status %d as \"file missing\"; only %d means the state file does not exist (any other status must abort the search, not be stepped over)", src(fs, ret), v, t.NotFoundStatus)
-			bad = true
-			return true
-		}
-		// the value whose Code is read must come from a type assertion of the parameter
-		root := rootObj(info, x)
-		fromParam := false
-		ast.Inspect(fi.Decl.Body, func(k ast.Node) bool {
-			if ta, ok := k.(*ast.TypeAssertExpr); ok && objOf(info, ta.X) == errParam && ta.Type != nil && namedPath(info.TypeOf(ta.Type)) == namedPath(errT) {
-				if as, ok := parentsOf(r.P, fi)[ta].(*ast.AssignStmt); ok && len(as.Lhs) > 0 && objOf(info, as.Lhs[0]) == root {
-					fromParam = true
-				}
-			}
-			return true
-		})
-		if !fromParam {
-			r.Unknown("notfound return", ret.Pos(), "`%s`: %s is not the parameter asserted to *UnexpectedStatusCodeError", src(fs, ret), root.Name())
-			bad = true
-			return true
-		}
-		positive++
-		return true
-	})
-	if !bad {
-		if positive == 0 {
-			r.Bad("notfound return", fi.Decl.Pos(), "NotFound never returns true: a missing state file aborts the search instead of being stepped over")
-		} else {
-			r.OK("notfound return", fi.Decl.Pos(), "every return is `false` or `%s.Code == %d` on the parameter asserted to *UnexpectedStatusCodeError", "e", t.NotFoundStatus)
-		}
-	}
-	// the status put into the error is the response's status, under a `!= 200` test
-	nlit := 0
-	for _, g := range c19SortedFuncs(m.funcs) {
-		g := g
-		ast.Inspect(g.Decl.Body, func(n ast.Node) bool {
-			cl, ok := n.(*ast.CompositeLit)
-			if !ok || namedPath(info.TypeOf(cl)) != namedPath(errT) {
-				return true
-			}
-			nlit++
-			c := "status@" + g.Name()
-			var code ast.Expr
-			for _, e := range cl.Elts {
-				if kv, ok := e.(*ast.KeyValueExpr); ok {
-					if id, ok := kv.Key.(*ast.Ident); ok && info.Uses[id] == codeFld {
-						code = kv.Value
-					}
-				}
-			}
-			f := fieldOf(info, code)
-			if code == nil || f == nil || f.Name() != "StatusCode" || namedPath(info.TypeOf(ast.Unparen(code).(*ast.SelectorExpr).X)) != "net/http.Response" {
-				r.Bad(c, cl.Pos(), "`%s`: Code is not the StatusCode of the HTTP response, so NotFound cannot recognise a 404", src(fs, cl))
-				return true
-			}
-			ifs, _ := enclosing(parentsOf(r.P, g), cl, func(n ast.Node) bool { _, ok := n.(*ast.IfStmt); return ok }).(*ast.IfStmt)
-			okGuard := false
-			if ifs != nil {
-				if be, ok := ast.Unparen(ifs.Cond).(*ast.BinaryExpr); ok && be.Op == token.NEQ && fieldOf(info, be.X) == f {
-					if v, ok := constInt(info, be.Y); ok && v == t.OKStatus {
-						okGuard = true
-					}
-				}
-			}
-			if !okGuard {
-				r.Bad(c, cl.Pos(), "the status error is not raised under `resp.StatusCode != %d`", t.OKStatus)
-				return true
-			}
-			r.OK(c, cl.Pos(), "under `%s` the error carries Code: %s", src(fs, ifs.Cond), src(fs, code))
-			return true
-		})
-	}
-	if nlit == 0 {
-		r.Anchor("UnexpectedStatusCodeError literals in the fetchers")
-	}
-}
-
-// ---------------------------------------------------------------- M4
-
-func c19M4(r *core.R) {
-	m := c19BuildModel(r)
-	t := c19LoadTable(r)
-	if m == nil || t == nil {
-		return
-	}
-	info := m.info
-	fs := r.P.Fset
-	n := 0
-	for _, dm := range m.methods {
-		if dm.role != "state" {
-			continue
-		}
-		k, ok := t.Kinds[dm.kind.Obj().Name()]
-		if !ok {
-			continue
-		}
-		off := t.Families[k.Family].SeqOffset
-		if off == 0 {
-			continue
-		}
-		n++
-		// the fetcher: reachable function with a parameter of the kind type and a *State local defined from a package call
-		var fi *FuncInfo
-		var sVar, nPar types.Object
-		var decode *types.Func
-		var defPos token.Pos
-		for _, g := range c19SortedFuncs(c19Reach(m.pk, m.funcs, dm.fi.Obj)) {
-			ps := g.Obj.Type().(*types.Signature).Params()
-			var p types.Object
-			for i := 0; i < ps.Len(); i++ {
-				if types.Identical(ps.At(i).Type(), dm.kind) {
-					p = ps.At(i)
-				}
-			}
-			if p == nil {
-				continue
-			}
-			ast.Inspect(g.Decl.Body, func(x ast.Node) bool {
-				as, ok := x.(*ast.AssignStmt)
-				if !ok || len(as.Rhs) != 1 || len(as.Lhs) == 0 {
-					return true
-				}
-				call, ok := as.Rhs[0].(*ast.CallExpr)
-				if !ok {
-					return true
-				}
-				fn := callee(info, call)
-				o := objOf(info, as.Lhs[0])
-				if fn == nil || m.funcs[fn] == nil || o == nil {
-					return true
-				}
-				if pt, ok := o.Type().(*types.Pointer); ok && types.Identical(pt.Elem(), m.stateT) && fi == nil {
-					fi, sVar, nPar, decode, defPos = g, o, p, fn, as.Pos()
-				}
-				return true
-			})
-		}
-		if fi == nil {
-			r.Anchor("changeset state fetcher reachable from " + dm.fi.Name() + " (a *State decoded from the response in a function with a " + dm.kind.Obj().Name() + " parameter)")
-			continue
-		}
-		c := "offbyone@" + fi.Name()
-		// writes to s.SeqNum
-		type wr struct {
-			stmt ast.Stmt
-			pos  token.Pos
-		}
-		var writes []wr
-		ast.Inspect(fi.Decl.Body, func(x ast.Node) bool {
-			switch s := x.(type) {
-			case *ast.AssignStmt:
-				for _, l := range s.Lhs {
-					if fieldOf(info, l) == m.seqField && rootObj(info, l) == sVar {
-						writes = append(writes, wr{s, s.Pos()})
-					}
-				}
-			case *ast.IncDecStmt:
-				if fieldOf(info, s.X) == m.seqField && rootObj(info, s.X) == sVar {
-					writes = append(writes, wr{s, s.Pos()})
-				}
-			}
-			return true
-		})
-		// the if on the parameter being 0
-		var ifs *ast.IfStmt
-		var op token.Token
-		ast.Inspect(fi.Decl.Body, func(x ast.Node) bool {
-			if s, ok := x.(*ast.IfStmt); ok && s.Pos() > defPos && s.Else != nil {
-				if o, ok := c19ZeroTest(info, s.Cond, nPar); ok && ifs == nil {
-					ifs, op = s, o
-				}
-			}
-			return true
-		})
-		inc := -off
-		docCur := fmt.Sprintf("the `sequence:` value of %s is %d less than the number of the file it describes, so the current state must report sequence%+d", t.Families[k.Family].CurrentState, inc, inc)
-		docNum := "the state of a numbered file must report the number it was requested under, not the (off by one) value stored inside it"
-		if ifs == nil {
-			r.Bad(c+" current", defPos, "no `if %s == 0 … else …` correction after `%s` is decoded: %s", nPar.Name(), sVar.Name(), docCur)
-			r.Bad(c+" numbered", defPos, "no `if %s == 0 … else …` correction after `%s` is decoded: %s", nPar.Name(), sVar.Name(), docNum)
-		} else {
-			var zeroB, nonzeroB ast.Node = ifs.Body, ifs.Else
-			if op == token.NEQ {
-				zeroB, nonzeroB = nonzeroB, zeroB
-			}
-			inB := func(b ast.Node) []wr {
-				var out []wr
-				for _, w := range writes {
-					if b.Pos() <= w.pos && w.pos <= b.End() {
-						out = append(out, w)
-					}
-				}
-				return out
-			}
-			// success returns of s must be dominated by the if
-			g := newCFG(info, fi.Decl.Body)
-			dom := dominators(g)
-			domOK, nret := true, 0
-			ast.Inspect(fi.Decl.Body, func(x ast.Node) bool {
-				if _, ok := x.(*ast.FuncLit); ok {
-					return false
-				}
-				if ret, ok := x.(*ast.ReturnStmt); ok && len(ret.Results) > 0 && objOf(info, ret.Results[0]) == sVar {
-					nret++
-					if !posDominates(g, dom, ifs.Cond.Pos(), ret.Pos()) || ret.Pos() < ifs.End() {
-						domOK = false
-					}
-				}
-				return true
-			})
-			extra := len(writes) - len(inB(zeroB)) - len(inB(nonzeroB))
-			// zero branch: s.SeqNum += inc
-			zw := inB(zeroB)
-			zOK := false
-			if len(zw) == 1 {
-				switch s := zw[0].stmt.(type) {
-				case *ast.IncDecStmt:
-					zOK = s.Tok == token.INC && inc == 1
-				case *ast.AssignStmt:
-					if len(s.Rhs) == 1 {
-						if v, ok := constInt(info, s.Rhs[0]); ok && s.Tok == token.ADD_ASSIGN && v == inc {
-							zOK = true
-						}
-						if be, ok := ast.Unparen(s.Rhs[0]).(*ast.BinaryExpr); ok && s.Tok == token.ASSIGN && be.Op == token.ADD && fieldOf(info, be.X) == m.seqField && rootObj(info, be.X) == sVar {
-							if v, ok := constInt(info, be.Y); ok && v == inc {
-								zOK = true
-							}
-						}
-					}
-				}
-			}
-			switch {
-			case !domOK || nret == 0:
-				r.Bad(c+" current", ifs.Pos(), "the correction `if %s` does not dominate every `return %s, …`", src(fs, ifs.Cond), sVar.Name())
-			case extra != 0:
-				r.Bad(c+" current", ifs.Pos(), "%s.SeqNum is also written outside the `if %s` correction (%d more site(s))", sVar.Name(), src(fs, ifs.Cond), extra)
-			case !zOK:
-				got := "nothing"
-				if len(zw) > 0 {
-					got = "`" + src(fs, zw[0].stmt) + "`"
-				}
-				r.Bad(c+" current", ifs.Pos(), "for %s == 0 the branch does %s to %s.SeqNum; %s", nPar.Name(), got, sVar.Name(), docCur)
-			default:
-				r.OK(c+" current", zw[0].pos, "`%s` on the %s == 0 branch of `if %s`, the only write besides the numbered branch; the if dominates the %d return(s) of %s (table: state_sequence_offset %d)", src(fs, zw[0].stmt), nPar.Name(), src(fs, ifs.Cond), nret, sVar.Name(), off)
-			}
-			nw := inB(nonzeroB)
-			nOK := false
-			if len(nw) == 1 {
-				if s, ok := nw[0].stmt.(*ast.AssignStmt); ok && s.Tok == token.ASSIGN && len(s.Rhs) == 1 && len(s.Lhs) == 1 {
-					if _, isConst := constInt(info, s.Rhs[0]); !isConst && c19IsSeqValueOf(info, s.Rhs[0], nPar) {
-						nOK = true
-					}
-				}
-			}
-			switch {
-			case !domOK || nret == 0 || extra != 0:
-				r.Bad(c+" numbered", ifs.Pos(), "see %s current", c)
-			case !nOK:
-				got := "nothing"
-				if len(nw) > 0 {
-					got = "`" + src(fs, nw[0].stmt) + "`"
-				}
-				r.Bad(c+" numbered", ifs.Pos(), "for %s != 0 the branch does %s to %s.SeqNum; %s (required `%s.SeqNum = uint64(%s)`)", nPar.Name(), got, sVar.Name(), docNum, sVar.Name(), nPar.Name())
-			default:
-				r.OK(c+" numbered", nw[0].pos, "`%s` on the %s != 0 branch: the state carries the number of the file requested", src(fs, nw[0].stmt), nPar.Name())
-			}
-		}
-		// the decoder stores the YAML value as parsed
-		cd := "raw@" + funcName(decode)
-		dfi := m.funcs[decode]
-		var val ast.Expr
-		nl := 0
-		ast.Inspect(dfi.Decl.Body, func(x ast.Node) bool {
-			cl, ok := x.(*ast.CompositeLit)
-			if !ok || !types.Identical(info.TypeOf(cl), m.stateT) {
-				return true
-			}
-			nl++
-			for _, e := range cl.Elts {
-				if kv, ok := e.(*ast.KeyValueExpr); ok {
-					if id, ok := kv.Key.(*ast.Ident); ok && info.Uses[id] == m.seqField {
-						val = kv.Value
-					}
-				}
-			}
-			return true
-		})
-		other := 0
-		ast.Inspect(dfi.Decl.Body, func(x ast.Node) bool {
-			switch s := x.(type) {
-			case *ast.AssignStmt:
-				for _, l := range s.Lhs {
-					if fieldOf(info, l) == m.seqField {
-						other++
-					}
-				}
-			case *ast.IncDecStmt:
-				if fieldOf(info, s.X) == m.seqField {
-					other++
-				}
-			}
-			return true
-		})
-		vobj := objOf(info, val)
-		if cv, ok := ast.Unparen(val).(*ast.CallExpr); val != nil && ok && len(cv.Args) == 1 {
-			if tv, ok := info.Types[cv.Fun]; ok && tv.IsType() {
-				vobj = objOf(info, cv.Args[0])
-			}
-		}
-		fromParse := false
-		if vobj != nil {
-			ast.Inspect(dfi.Decl.Body, func(x ast.Node) bool {
-				as, ok := x.(*ast.AssignStmt)
-				if !ok || len(as.Rhs) != 1 || len(as.Lhs) == 0 || objOf(info, as.Lhs[0]) != vobj {
-					return true
-				}
-				if call, ok := as.Rhs[0].(*ast.CallExpr); ok {
-					fn := callee(info, call)
-					if isPkgFunc(fn, "strconv", "ParseUint") || isPkgFunc(fn, "strconv", "ParseInt") || isPkgFunc(fn, "strconv", "Atoi") {
-						fromParse = true
-					}
-				}
-				return true
-			})
-		}
-		switch {
-		case nl != 1 || val == nil || other != 0:
-			r.Unknown(cd, dfi.Decl.Pos(), "%s does not build its result with a single `State{SeqNum: v, …}` literal (accepted idiom)", funcName(decode))
-		case !fromParse:
-			r.Bad(cd, val.Pos(), "`SeqNum: %s` is not the parsed `sequence:` value itself: the fetcher's correction of %+d would be applied on top of another adjustment", src(fs, val), inc)
-		default:
-			r.OK(cd, val.Pos(), "`SeqNum: %s` is the strconv result for the `sequence:` line, unadjusted; the only correction is the fetcher's", src(fs, val))
-		}
-	}
-	if n == 0 {
-		r.Anchor("a state fetcher for a family with a non-zero state_sequence_offset (changesets)")
-	}
-}
-
-// ---------------------------------------------------------------- M5
-
-// c19Shape renders a syntax tree with every kind-specific name replaced by its role and every
-// local by the ordinal of its first occurrence, so that siblings that differ only in the
-// sequence-number type they serve render identically.
-func (m *c19Model) shape(fi *FuncInfo) []string {
-	var out []string
-	locals := map[types.Object]int{}
-	info := m.info
-	var depth []ast.Node
-	ast.Inspect(fi.Decl, func(n ast.Node) bool {
-		if n == nil {
-			depth = depth[:len(depth)-1]
-			out = append(out, ")")
-			return true
-		}
-		depth = append(depth, n)
-		if n == ast.Node(fi.Decl.Name) {
-			out = append(out, "(name")
-			return true
-		}
-		if fi.Decl.Doc != nil && n == ast.Node(fi.Decl.Doc) {
-			depth = depth[:len(depth)-1]
-			return false
-		}
-		tok := strings.TrimPrefix(fmt.Sprintf("%T", n), "*ast.")
-		if e, ok := n.(ast.Expr); ok {
-			if tv, ok := info.Types[e]; ok && tv.Value != nil {
-				// any constant expression (literal, named constant, arithmetic on them) is one token
-				out = append(out, "(«const»", ")")
-				depth = depth[:len(depth)-1]
-				return false
-			}
-		}
-		switch x := n.(type) {
-		case *ast.Ident:
-			o := info.Uses[x]
-			if o == nil {
-				o = info.Defs[x]
-			}
-			switch ob := o.(type) {
-			case *types.TypeName:
-				if nt, ok := ob.Type().(*types.Named); ok && m.kinds[ob.Name()] == nt {
-					tok = "«K»"
-				} else {
-					tok = "type:" + ob.Name()
-				}
-			case *types.Const:
-				tok = "«const»"
-			case *types.Func:
-				tok = "func:" + ob.Name()
-				for _, dm := range m.methods {
-					if dm.fi.Obj == ob {
-						tok = "«ds." + dm.role + "»"
-					}
-				}
-			case *types.Var:
-				if ob.IsField() {
-					tok = "field:" + ob.Name()
-				} else if ob.Parent() == m.pk.Types.Scope() {
-					tok = "pkgvar:" + ob.Name()
-				} else {
-					if _, ok := locals[ob]; !ok {
-						locals[ob] = len(locals)
-					}
-					tok = fmt.Sprintf("v%d", locals[ob])
-				}
-			case nil:
-				tok = "id:" + x.Name
-			default:
-				tok = "obj:" + x.Name
-			}
-		case *ast.BasicLit:
-			tok = "lit:" + x.Value
-		case *ast.BinaryExpr:
-			tok += x.Op.String()
-		case *ast.UnaryExpr:
-			tok += x.Op.String()
-		case *ast.AssignStmt:
-			tok += x.Tok.String()
-		case *ast.IncDecStmt:
-			tok += x.Tok.String()
-		case *ast.BranchStmt:
-			tok += x.Tok.String()
-		}
-		out = append(out, "("+tok)
-		return true
-	})
-	return out
-}
-
-func c19M5(r *core.R) {
-	m := c19BuildModel(r)
-	if m == nil {
-		return
-	}
-	info := m.info
-	fs := r.P.Fset
-	// package-level delegates: F(ctx, t) = DefaultDatasource.F(ctx, t)
-	var wrappers []*FuncInfo
-	for _, e := range m.entries {
-		c := "delegate@" + e.fi.Obj.Name()
-		var w *FuncInfo
-		if o, ok := m.pk.Types.Scope().Lookup(e.fi.Obj.Name()).(*types.Func); ok {
-			w = m.funcs[o]
-		}
-		if w == nil {
-			r.Anchor("package-level " + c19Pkg + "." + e.fi.Obj.Name())
-			continue
-		}
-		wrappers = append(wrappers, w)
-		okW := false
-		why := "body is not a single `return DefaultDatasource." + e.fi.Obj.Name() + "(ctx, timestamp)`"
-		if len(w.Decl.Body.List) == 1 {
-			if ret, ok := w.Decl.Body.List[0].(*ast.ReturnStmt); ok && len(ret.Results) == 1 {
-				if call, ok := ret.Results[0].(*ast.CallExpr); ok {
-					ps := w.Obj.Type().(*types.Signature).Params()
-					switch {
-					case callee(info, call) != e.fi.Obj:
-						why = fmt.Sprintf("delegates to %s instead of (*Datasource).%s: the lookup runs on another replication directory", src(fs, call.Fun), e.fi.Obj.Name())
-					case len(call.Args) != ps.Len():
-						why = "argument count differs"
-					default:
-						okW = true
-						for i, a := range call.Args {
-							if objOf(info, a) != ps.At(i) {
-								okW = false
-								why = fmt.Sprintf("argument %d `%s` is not the wrapper's own parameter %s", i+1, src(fs, a), ps.At(i).Name())
-							}
-						}
-					}
-				}
-			}
-		}
-		if okW {
-			r.OK(c, w.Decl.Pos(), "returns (*Datasource).%s on the default datasource with its own parameters in order", e.fi.Obj.Name())
-		} else {
-			r.Bad(c, w.Decl.Pos(), "%s: %s", w.Name(), why)
-		}
-	}
-	// per method: the descriptor's closures serve the method's own kind on the method's own receiver; Min >= 1
-	for _, e := range m.entries {
-		name := e.fi.Name()
-		var recv types.Object
-		if e.fi.Decl.Recv != nil && len(e.fi.Decl.Recv.List) == 1 && len(e.fi.Decl.Recv.List[0].Names) == 1 {
-			recv = info.Defs[e.fi.Decl.Recv.List[0].Names[0]]
-		}
-		var lit *ast.CompositeLit
-		ast.Inspect(e.fi.Decl.Body, func(n ast.Node) bool {
-			if cl, ok := n.(*ast.CompositeLit); ok && lit == nil && namedPath(info.TypeOf(cl)) == namedPath(m.stater) {
-				lit = cl
-			}
-			return true
-		})
-		if lit == nil || recv == nil {
-			r.Unknown("kind@"+name, e.fi.Decl.Pos(), "no search descriptor literal / unnamed receiver")
-			continue
-		}
-		vals := map[*types.Var]ast.Expr{}
-		for _, el := range lit.Elts {
-			if kv, ok := el.(*ast.KeyValueExpr); ok {
-				if id, ok := kv.Key.(*ast.Ident); ok {
-					if f, ok := info.Uses[id].(*types.Var); ok {
-						vals[f] = kv.Value
-					}
-				}
-			}
-		}
-		check := func(fld *types.Var, role string) string {
-			fl, ok := ast.Unparen(vals[fld]).(*ast.FuncLit)
-			if vals[fld] == nil || !ok {
-				return fmt.Sprintf("field %s is not set to a function literal", fld.Name())
-			}
-			var calls []*ast.CallExpr
-			ast.Inspect(fl.Body, func(n ast.Node) bool {
-				if call, ok := n.(*ast.CallExpr); ok {
-					if fn := callee(info, call); fn != nil && m.funcs[fn] != nil {
-						calls = append(calls, call)
-					}
-				}
-				return true
-			})
-			if len(calls) != 1 {
-				return fmt.Sprintf("field %s: expected exactly one call into the package, found %d", fld.Name(), len(calls))
-			}
-			call := calls[0]
-			fn := callee(info, call)
-			var dm *c19DSMethod
-			for _, x := range m.methods {
-				if x.fi.Obj == fn {
-					dm = x
-				}
-			}
-			sel, _ := ast.Unparen(call.Fun).(*ast.SelectorExpr)
-			switch {
-			case dm == nil || dm.role != role:
-				return fmt.Sprintf("field %s calls %s, which is not a %s fetcher of Datasource", fld.Name(), fn.Name(), role)
-			case dm.kind != e.kind:
-				return fmt.Sprintf("field %s calls %s, the %s fetcher for %s, inside the lookup for %s: the search reads another replication directory", fld.Name(), fn.Name(), role, dm.kind.Obj().Name(), e.kind.Obj().Name())
-			case sel == nil || objOf(info, sel.X) != recv:
-				return fmt.Sprintf("field %s calls %s on `%s`, not on the method's receiver %s", fld.Name(), fn.Name(), src(fs, call.Fun), recv.Name())
-			}
-			if role == "state" {
-				// second argument: K(n) with n the closure's integer parameter
-				ok := false
-				if len(call.Args) == 2 {
-					if cv, isCall := ast.Unparen(call.Args[1]).(*ast.CallExpr); isCall && len(cv.Args) == 1 {
-						if tv := info.Types[cv.Fun]; tv.IsType() {
-							if o := objOf(info, cv.Args[0]); o != nil && fl.Type.Params != nil {
-								for _, p := range fl.Type.Params.List {
-									for _, nm := range p.Names {
-										if info.Defs[nm] == o {
-											ok = true
-										}
-									}
-								}
-							}
-						}
-					}
-				}
-				if !ok {
-					return fmt.Sprintf("field %s: `%s` does not fetch the sequence number the search asks for (required %s(n) of the closure's parameter)", fld.Name(), src(fs, call), e.kind.Obj().Name())
-				}
-			}
-			return ""
-		}
-		w1, w2 := check(m.curFld, "current"), check(m.fetchFld, "state")
-		if w1 == "" && w2 == "" {
-			r.OK("kind@"+name, lit.Pos(), "%s: %s and %s call the %s current/numbered state fetchers on the receiver", m.stater.Obj().Name(), m.curFld.Name(), m.fetchFld.Name(), e.kind.Obj().Name())
-		} else {
-			r.Bad("kind@"+name, lit.Pos(), "%s", strings.TrimPrefix(w1+"; "+w2, "; "))
-		}
-		if v, ok := constInt(info, vals[m.minFld]); vals[m.minFld] == nil || !ok {
-			r.Unknown("min@"+name, lit.Pos(), "%s is not a constant", m.minFld.Name())
-		} else if v < 1 {
-			r.Bad("min@"+name, vals[m.minFld].Pos(), "%s: %d: sequence number 0 selects the current-state file, so the lower bound of the search would be the newest state and every lookup returns it", m.minFld.Name(), v)
-		} else {
-			r.OKTrivial("min@"+name, vals[m.minFld].Pos(), "%s = %d >= 1 (a numbered state file)", m.minFld.Name(), v)
-		}
-	}
-	// sibling shapes
-	for _, grp := range []struct {
-		tag string
-		fis []*FuncInfo
-	}{{"method", func() []*FuncInfo {
-		var o []*FuncInfo
-		for _, e := range m.entries {
-			o = append(o, e.fi)
-		}
-		return o
-	}()}, {"delegate", wrappers}} {
-		shapes := map[*FuncInfo][]string{}
-		count := map[string]int{}
-		for _, fi := range grp.fis {
-			shapes[fi] = m.shape(fi)
-			count[strings.Join(shapes[fi], " ")]++
-		}
-		var ref []string
-		best := 0
-		for _, fi := range grp.fis {
-			if n := count[strings.Join(shapes[fi], " ")]; n > best {
-				best, ref = n, shapes[fi]
-			}
-		}
-		for _, fi := range grp.fis {
-			c := "shape@" + fi.Name()
-			sh := shapes[fi]
-			if strings.Join(sh, " ") == strings.Join(ref, " ") && best*2 > len(grp.fis) || len(grp.fis) == 1 {
-				r.OK(c, fi.Decl.Pos(), "same structure as its %d sibling(s) up to the sequence-number type (%d syntax nodes compared after replacing kind-specific names by roles)", best-1, len(sh)/2)
-				continue
-			}
-			if best*2 <= len(grp.fis) {
-				r.Unknown(c, fi.Decl.Pos(), "the %d %s siblings have no majority structure to compare with", len(grp.fis), grp.tag)
-				continue
-			}
-			i := 0
-			for i < len(sh) && i < len(ref) && sh[i] == ref[i] {
-				i++
-			}
-			a, b := "<end>", "<end>"
-			if i < len(sh) {
-				a = sh[i]
-			}
-			if i < len(ref) {
-				b = ref[i]
-			}
-			r.Bad(c, fi.Decl.Pos(), "%s differs from its %d siblings at syntax node %d: has %s where they have %s (after replacing kind-specific names by roles): the lookup for this replication kind does not follow the common search", fi.Name(), best, i, strings.TrimPrefix(a, "("), strings.TrimPrefix(b, "("))
-		}
-	}
-}
-
-// c19M2Exhausted: when both neighbour scans found nothing (every state file strictly between the
-// bounds is missing) the search must give the same answer as its normal exit, the upper bound: the
-// loop keeps lower.Timestamp < t <= upper.Timestamp, so with nothing in between the first available
-// state at or after t is the upper bound.
-func c19M2Exhausted(r *core.R, m *c19Model) {
-	info := m.info
-	fs := r.P.Fset
-	for _, fi := range m.reachList {
-		loops := c19CollectLoops(fi)
-		for _, l := range loops {
-			outer, ok := l.stmt.(*ast.ForStmt)
-			if !ok || outer.Cond == nil {
-				continue
-			}
-			// an outer loop with neighbour scans nested directly in it
-			var lastScan token.Pos
-			for _, k := range loops {
-				if k.parent == l {
-					if fl, ok := k.stmt.(*ast.ForStmt); ok && len(m.fetchesIn(fl.Body)) > 0 && fl.End() > lastScan {
-						lastScan = fl.End()
-					}
-				}
-			}
-			if !lastScan.IsValid() {
-				continue
-			}
-			c := "scans@" + fi.Name() + " exhausted"
-			lo, hi := m.bounds(outer.Cond)
-			var res types.Object
-			for _, oc := range m.fetchesIn(outer.Body) {
-				if as, ok := parentsOf(r.P, fi)[oc].(*ast.AssignStmt); ok && len(as.Lhs) > 0 {
-					res = objOf(info, as.Lhs[0])
-				}
-			}
-			// fall-through return of the function
-			var final types.Object
-			if n := len(fi.Decl.Body.List); n > 0 {
-				if ret, ok := fi.Decl.Body.List[n-1].(*ast.ReturnStmt); ok && len(ret.Results) > 0 {
-					final = objOf(info, ret.Results[0])
-				}
-			}
-			var exit *ast.ReturnStmt
-			var guard *ast.IfStmt
-			for _, st := range outer.Body.List {
-				ifs, ok := st.(*ast.IfStmt)
-				if !ok || ifs.Pos() < lastScan || ifs.Else != nil {
-					continue
-				}
-				be, ok := ast.Unparen(ifs.Cond).(*ast.BinaryExpr)
-				if !ok || be.Op != token.EQL || res == nil || objOf(info, be.X) != res || !info.Types[be.Y].IsNil() {
-					continue
-				}
-				for _, b := range ifs.Body.List {
-					if ret, ok := b.(*ast.ReturnStmt); ok && exit == nil {
-						exit, guard = ret, ifs
-					}
-				}
-			}
-			switch {
-			case lo == nil || hi == nil || res == nil || final == nil || exit == nil || len(exit.Results) == 0:
-				r.Unknown(c, outer.Pos(), "no `if <fetched state> == nil { return … }` after the neighbour scans / bound roles or fall-through return not recognised")
-			case final != hi:
-				r.Bad(c, fi.Decl.Body.List[len(fi.Decl.Body.List)-1].Pos(), "the search ends with `return %s`, which is not the upper bound %s of `for %s`", final.Name(), hi.Name(), src(fs, outer.Cond))
-			case objOf(info, exit.Results[0]) != hi:
-				r.Bad(c, exit.Pos(), "`if %s { %s }` after both neighbour scans: with every state file strictly between %s and %s missing the search answers `%s`, but its normal exit answers %s. The loop keeps %s.Timestamp < t <= %s.Timestamp, so %s is a state written before t: not the first state at or after t (e.g. states {1,9,10}, t between 1 and 9: the answer must be 9)",
-					src(fs, guard.Cond), src(fs, exit), lo.Name(), hi.Name(), src(fs, exit.Results[0]), hi.Name(), lo.Name(), hi.Name(), src(fs, exit.Results[0]))
-			default:
-				r.OK(c, exit.Pos(), "`if %s { %s }` after both scans agrees with the fall-through `return %s`: with nothing available between the bounds the upper bound is the first state at or after t", src(fs, guard.Cond), src(fs, exit), hi.Name())
-			}
-		}
-	}
 }
